@@ -1,16 +1,34 @@
 (** Additions on the map forest: [mm_modify HO m adds [] [] []] (mirror of [MapPollard.Modify]
-    without deletions: [add] = [addSingle] for every added leaf) PRESERVES the tie between the
-    map state and the reference forest.
+    without deletions: [add] = [addSingle] for every added leaf, [remap] when the forest outgrows
+    the allocated rows) PRESERVES the tie between the map state and the reference forest.
 
-    - Part 0: association lists ([nodes_put], [nodes_del], [cached_put], ...).
+    Main results (Part 5; all axiom-free, for every [H], [HO] with [ops_ok HO] and
+    [op_hash2] never the empty hash):
+    - [Inv s R m]: the strengthened invariant; [Inv_consistent : Inv s R m -> consistent HO s R m],
+      [Inv_flag] (a remembered leaf carries the flag), [Inv_empty];
+    - G1 [addSingle_Inv]: one addition that fits into [ms_total] rows (full and partial forests;
+      empty roots are written over: [moveUpDescendants]; [pruneNieces]);
+    - G2 [add_all_Inv], [modify_adds_Inv]: any list of additions, no [remap];
+    - G3 [remap_Inv], [addSingle_gen], [add_all_gen], [modify_adds_gen]: with [remap];
+    - G4 [Inv_stores_allowed]: a partial forest in [Inv] stores only positions of the
+      reference's [allowed_pos] (the field [inv_tidy] of [Inv] is preserved by all of the above).
+    Side conditions: the added hashes are fresh and not the empty hash; the leaf count stays
+    [<= 2^63]; [leaf_sep]: no inner node of the new forest has the hash of a remembered leaf
+    (the cached positions are keyed by hash; [mmc_collision] shows that it is necessary).
+
+    - Part 0: association lists; a sequence of moves ([apply_moves_spec]); [moveUpDescendants] is
+      such a sequence ([moveUpDescendants_eq]).
     - Part 1: the invariant in abstract form: [GInv V RT R T nd ca] ties the two maps to a
       VIEW of a forest: [V r o h l] = "coordinate [(r, o)] holds a node with hash [h], leaf flag
       [l]", [RT r o] = "[(r, o)] is a root".  [prunePosition] preserves it; for the view of the
       layout of a slot list it implies [consistent] of Proofs/MapReadSpec.v.
-    - Part 2: positions ([gp T r o]) under [Parent], [LeftChild], [sibling], [rootPosition].
-    - Part 3: the reference forest of [s ++ [Some a]]: the views [Vh h] met by the loop of
-      [addSingle] (the trees of [s] of rows [>= h] and the climbing tree of row [h]).
-    - Part 4: the loop [as_loop], [addSingle], [add_all], [mm_modify]. *)
+    - Part 3: the reference forest of [s ++ [Some a]]: the views [Vent (Fh h)] met by the loop of
+      [addSingle] (the trees of [s] of rows [>= h] and the climbing tree [cl h] of row [h]);
+      [forest_snoc_Fh]; one step on the views (case A: a non-empty root is joined; case B: an
+      empty root is written over, the climbing tree moves up one row).
+    - Part 4: the steps on the abstract invariant ([put_leaf], [put_node], [stepB_GInv], and
+      their [Tidy] versions, [prune_tidy]); the loop [as_loop_ok]; [remap].
+    - Part 5: [addSingle], [add_all], [mm_modify].  Part 6: decision procedure, examples. *)
 From Utreexo Require Import Base.Hash Model.Utils Model.UtilsFast Model.Verify Model.MapRead
   Model.MapMut Spec.Forest Proofs.UtilsGeom Proofs.UtilsGeom2 Proofs.SpecBasics Proofs.StumpAdd
   Proofs.LayoutStruct Proofs.ProofPosSpec Proofs.MapReadSpec.
@@ -1728,6 +1746,24 @@ Section StepView.
           as (x & Hx & E).
         exists x. split; [|exact E]. exact (entry_layout H HO _ _ x He Hx).
   Qed.
+
+  Lemma Vent_single_row k lo t r o hh l : Vent HO [(k, lo, t)] r o hh l -> (r <= k)%nat.
+  Proof.
+    intros Hv. apply Vent_single in Hv. destruct t as [c|]; [|lia].
+    apply (Vpt_any c k (lo / p2 k) true k) in Hv as (x & Hx & <- & _).
+    exact (proj1 (place_tree_range H c _ _ _ _ _ Hx)).
+  Qed.
+
+  (** the position of the next step is still free *)
+  Lemma Vh_free h hh l : al s (S h) -> ~ Vent HO (Fh HO s a h) (S h) (n / p2 (S h)) hh l.
+  Proof.
+    intros Ha Hv. apply (Vent_split _ _ _ (fun e => Fh_split h e Ha)) in Hv as [Hv|Hv].
+    - apply (Fold_out h _ _ _ _ Ha Hv). split; [lia|]. rewrite Nat.sub_diag. change (p2 0) with 1. lia.
+    - apply (Vent_split [(h, Lh s (S h), oldt HO s h); (h, Lh s h, cl HO s a h)]
+               [(h, Lh s (S h), oldt HO s h)] [(h, Lh s h, cl HO s a h)]) in Hv.
+      2:{ intros e. cbn [In]. tauto. }
+      destruct Hv as [Hv|Hv]; apply Vent_single_row in Hv; lia.
+  Qed.
 End StepView.
 
 Arguments pj {H} x.
@@ -1860,6 +1896,340 @@ Section AbstractSteps.
   Qed.
 End AbstractSteps.
 
+
+(** * Part 4a-t: "nothing else is stored" (partial forests), on the abstract invariant *)
+Section TidyAbs.
+  Variable H : Type.
+  Variable HO : ops H.
+  Hypothesis HOK : ops_ok HO.
+  Notation nodemap := (list (N * (H * bool))).
+  Notation cachemap := (list (H * N)).
+
+  Definition needed (V : nat -> N -> H -> bool -> Prop) (RT : nat -> N -> Prop) (R : list H)
+             (r : nat) (o : N) : Prop :=
+    RT r o \/ known V RT R r o \/ (known V RT R r (N.lxor o 1) /\ ~ RT r (N.lxor o 1)).
+
+  (** [tidyx E]: the flag marks remembered leaves only, and every stored node outside [E] is a
+      root, a known coordinate or the sibling of one *)
+  Definition tidyx (V : nat -> N -> H -> bool -> Prop) (RT : nat -> N -> Prop) (R : list H) (T : N)
+             (E : nat -> N -> Prop) (nd : nodemap) : Prop :=
+    (forall r o h l, V r o h l -> nodes_get nd (gp T r o) = Some (h, true) -> l = true /\ In h R) /\
+    (forall r o h l, V r o h l -> ~ E r o -> nodes_get nd (gp T r o) <> None -> needed V RT R r o).
+  Definition Tidy V RT R T nd := tidyx V RT R T (fun _ _ => False) nd.
+
+  (** the root's parent coordinate holds no node *)
+  Definition Vrp (V : nat -> N -> H -> bool -> Prop) (RT : nat -> N -> Prop) : Prop :=
+    forall r o, RT r o -> forall h l, ~ V (S r) (o / 2) h l.
+
+  Lemma prunePosition_sub T (nd : nodemap) pos p v :
+    nodes_get (prunePosition HO T nd pos) p = Some v -> nodes_get nd p = Some v.
+  Proof.
+    unfold prunePosition.
+    destruct (negb (snd (nodes_get0 HO nd pos)) && negb (snd (nodes_get0 HO nd (sibling pos)))); [|auto].
+    destruct (niecesPresent T nd (sibling pos)).
+    - destruct (niecesPresent T nd pos); [auto|]. rewrite nodes_get_del. destruct (p =? pos); [discriminate|auto].
+    - destruct (niecesPresent T (nodes_del (sibling pos) nd) pos); rewrite ?nodes_get_del;
+        destruct (p =? pos); try discriminate; destruct (p =? sibling pos); try discriminate; auto.
+  Qed.
+
+  Section Prune.
+    Variables (V : nat -> N -> H -> bool -> Prop) (RT : nat -> N -> Prop) (R : list H) (T : N).
+    Hypothesis HV : Vok V RT T.
+    Hypothesis Hrp : Vrp V RT.
+    Variables (nd : nodemap) (ca : cachemap).
+    Hypothesis G : GInv V RT R T nd ca.
+    Variables (r : nat) (x : N).
+    Hypothesis Hr : N.of_nat r < T.
+    Hypothesis Hx : x < 2 ^ (T - N.of_nat r).
+    Hypothesis Hn1 : ~ RT r x.
+    Hypothesis Hn2 : ~ RT r (N.lxor x 1).
+    Hypothesis Hpair : (exists h l, V r x h l) <-> (exists h l, V r (N.lxor x 1) h l).
+    Hypothesis HT0 : tidyx V RT R T (fun r' o' => r' = r /\ (o' = x \/ o' = N.lxor x 1)) nd.
+
+    (** a stored child makes its parent known *)
+    Lemma child_known r0 y hY lY : r = S r0 -> V (S r0) y hY lY -> y < 2 ^ (T - N.of_nat (S r0)) ->
+      (nodes_has nd (gpos T (N.of_nat r0) (2 * y)) || nodes_has nd (gpos T (N.of_nat r0) (2 * y + 1))) = true ->
+      known V RT R (S r0) y.
+    Proof.
+      intros Er HvY Hy Hst. pose proof (v_T63 HV) as HT.
+      assert (Hc : forall b, b < 2 -> nodes_get nd (gp T r0 (2 * y + b)) <> None -> known V RT R (S r0) y).
+      { intros b Hb Hs. destruct (nodes_get nd (gp T r0 (2 * y + b))) as [[hc bc]|] eqn:E; [|congruence].
+        destruct (g_true G _ _ _ (nodes_get_In H _ _ _ E)) as (r1 & o1 & l & Ep & Hv).
+        destruct (v_valid HV Hv) as [A B].
+        assert (Hcv : 2 * y + b < 2 ^ (T - N.of_nat r0)).
+        { replace (T - N.of_nat r0) with (T - N.of_nat (S r0) + 1) by lia. rewrite UtilsGeom.pow2_S. lia. }
+        destruct (gp_inj T r0 (2 * y + b) r1 o1 ltac:(lia) Hcv A B Ep) as [<- <-].
+        assert (Ediv : (2 * y + b) / 2 = y).
+        { rewrite N.mul_comm, N.div_add_l by lia. rewrite (N.div_small b 2 Hb). lia. }
+        assert (Hnr : ~ RT r0 (2 * y + b)).
+        { intros C. apply (Hrp _ _ C hY lY). rewrite Ediv. exact HvY. }
+        assert (HnE : ~ (r0 = r /\ (2 * y + b = x \/ 2 * y + b = N.lxor x 1))) by lia.
+        assert (Hs' : nodes_get nd (gp T r0 (2 * y + b)) <> None) by (rewrite E; discriminate).
+        destruct (proj2 HT0 _ _ _ _ Hv HnE Hs') as [C|[Hk|[Hk Hns]]]; [contradiction| |].
+        - rewrite <- Ediv. apply kn_up; assumption.
+        - rewrite <- Ediv, <- lxor1_div2. apply kn_up; assumption. }
+      apply Bool.orb_true_iff in Hst as [Hst|Hst]; apply nodes_has_true in Hst.
+      - apply (Hc 0); [lia|]. rewrite N.add_0_r. exact Hst.
+      - apply (Hc 1); [lia|exact Hst].
+    Qed.
+
+    Lemma flag_known z hz lz : V r z hz lz -> z < 2 ^ (T - N.of_nat r) ->
+      snd (nodes_get0 HO nd (gp T r z)) = true -> known V RT R r z.
+    Proof.
+      intros Hv Hz Hf. unfold nodes_get0 in Hf.
+      destruct (nodes_get nd (gp T r z)) as [[h b]|] eqn:E; [|discriminate]. cbn [snd] in Hf. subst b.
+      destruct (g_true G _ _ _ (nodes_get_In H _ _ _ E)) as (r1 & o1 & l & Ep & Hv1).
+      destruct (v_valid HV Hv1) as [A B].
+      destruct (gp_inj T r z r1 o1 ltac:(lia) Hz A B Ep) as [<- <-].
+      destruct (proj1 HT0 _ _ _ _ Hv1 E) as [-> Hin]. exact (kn_leaf _ _ _ _ _ h Hv1 Hin).
+    Qed.
+
+    Lemma nieces_known z hz lz hs ls : V r z hz lz -> V r (N.lxor z 1) hs ls ->
+      z < 2 ^ (T - N.of_nat r) -> niecesPresent T nd (gp T r z) = true ->
+      known V RT R r (N.lxor z 1).
+    Proof.
+      intros Hv Hvs Hz Hnp. pose proof (v_T63 HV) as HT. unfold niecesPresent in Hnp.
+      unfold gp in Hnp at 1. rewrite (DetectRow_gpos T (N.of_nat r) z HT ltac:(lia) Hz) in Hnp.
+      destruct (N.eqb_spec (N.of_nat r) 0) as [E0|Hne]; [discriminate|].
+      assert (Er : r = S (pred r)) by lia. set (r0 := pred r) in *.
+      pose proof (lxor1_valid T r z Hr Hz) as Hz'.
+      unfold gp in Hnp. rewrite (sibling_gpos T (N.of_nat r) z ltac:(lia)) in Hnp.
+      assert (Hz'' : N.lxor z 1 < 2 ^ (T - N.of_nat (S r0))) by (rewrite <- Er; exact Hz').
+      destruct (child_valid T r0 (N.lxor z 1) ltac:(lia) Hz'') as [C D].
+      replace (N.of_nat r) with (N.of_nat r0 + 1) in Hnp by lia.
+      rewrite (LeftChild_gpos T _ _ HT C D), (RightChild_gpos T _ _ HT C D) in Hnp.
+      rewrite Er. apply (child_known r0 (N.lxor z 1) hs ls Er); [rewrite <- Er; exact Hvs|exact Hz''|exact Hnp].
+    Qed.
+
+    Lemma nieces_del_mono p q : niecesPresent T (nodes_del p nd) q = true -> niecesPresent T nd q = true.
+    Proof.
+      unfold niecesPresent. destruct (DetectRow q T =? 0); [auto|].
+      unfold nodes_has. rewrite !nodes_get_del.
+      destruct (_ =? p); destruct (_ =? p); cbn; auto;
+        destruct (nodes_get nd (LeftChild (sibling q) T)); destruct (nodes_get nd (RightChild (sibling q) T)); auto.
+    Qed.
+
+    Theorem prune_tidy : Tidy V RT R T (prunePosition HO T nd (gp T r x)).
+    Proof.
+      pose proof (v_T63 HV) as HT. pose proof (lxor1_valid T r x Hr Hx) as Hy.
+      assert (Es : sibling (gp T r x) = gp T r (N.lxor x 1)) by (unfold gp; apply sibling_gpos; lia).
+      assert (Hne : gp T r (N.lxor x 1) <> gp T r x).
+      { intros E. apply (gp_inj T r _ r x) in E as [_ E]; try lia; try assumption.
+        rewrite lxor_1 in E. destruct (N.even x) eqn:Ev; [lia|]. pose proof (odd_nz x Ev). lia. }
+      split.
+      - intros r' o' h l Hv E. apply prunePosition_sub in E. exact (proj1 HT0 _ _ _ _ Hv E).
+      - intros r' o' h l Hv _ Hst.
+        destruct (nodes_get (prunePosition HO T nd (gp T r x)) (gp T r' o')) as [v|] eqn:Ev; [clear Hst|congruence].
+        pose proof (prunePosition_sub _ _ _ _ _ Ev) as Ev0.
+        assert (Hst0 : nodes_get nd (gp T r' o') <> None) by (rewrite Ev0; discriminate).
+        destruct (Nat.eq_dec r' r) as [->|Hnr];
+          [|apply (proj2 HT0 _ _ _ _ Hv); [intros [C _]; contradiction|exact Hst0]].
+        destruct (N.eq_dec o' x) as [->|Hox];
+          [|destruct (N.eq_dec o' (N.lxor x 1)) as [->|Hoy];
+            [|apply (proj2 HT0 _ _ _ _ Hv); [intros [_ [C|C]]; contradiction|exact Hst0]]].
+        + (* the position itself *)
+          destruct (proj1 Hpair (ex_intro _ h (ex_intro _ l Hv))) as (hs & ls & Hvs).
+          unfold prunePosition in Ev. rewrite Es in Ev.
+          destruct (snd (nodes_get0 HO nd (gp T r x))) eqn:F1; cbn [negb andb] in Ev.
+          { right. left. exact (flag_known x h l Hv Hx F1). }
+          destruct (snd (nodes_get0 HO nd (gp T r (N.lxor x 1)))) eqn:F2; cbn [negb andb] in Ev.
+          { right. right. split; [exact (flag_known _ hs ls Hvs Hy F2)|exact Hn2]. }
+          right. right. split; [|exact Hn2].
+          apply (nieces_known x h l hs ls Hv Hvs Hx).
+          destruct (niecesPresent T nd (gp T r (N.lxor x 1))) eqn:N1.
+          * destruct (niecesPresent T nd (gp T r x)) eqn:N2; [reflexivity|].
+            rewrite nodes_get_del, N.eqb_refl in Ev. discriminate.
+          * destruct (niecesPresent T (nodes_del (gp T r (N.lxor x 1)) nd) (gp T r x)) eqn:N2.
+            -- exact (nieces_del_mono _ _ N2).
+            -- rewrite nodes_get_del, N.eqb_refl in Ev. discriminate.
+        + (* its sibling *)
+          destruct (proj2 Hpair (ex_intro _ h (ex_intro _ l Hv))) as (hs & ls & Hvs).
+          unfold prunePosition in Ev. rewrite Es in Ev.
+          destruct (snd (nodes_get0 HO nd (gp T r x))) eqn:F1; cbn [negb andb] in Ev.
+          { right. right. rewrite lxor1_invol. split; [exact (flag_known x hs ls Hvs Hx F1)|exact Hn1]. }
+          destruct (snd (nodes_get0 HO nd (gp T r (N.lxor x 1)))) eqn:F2; cbn [negb andb] in Ev.
+          { right. left. exact (flag_known _ h l Hv Hy F2). }
+          right. right. rewrite lxor1_invol. split; [|exact Hn1].
+          rewrite <- (lxor1_invol x).
+          apply (nieces_known (N.lxor x 1) h l hs ls Hv); [rewrite lxor1_invol; exact Hvs|exact Hy|].
+          destruct (niecesPresent T nd (gp T r (N.lxor x 1))) eqn:N1; [reflexivity|].
+          exfalso. destruct (niecesPresent T (nodes_del (gp T r (N.lxor x 1)) nd) (gp T r x)).
+          * rewrite nodes_get_del, N.eqb_refl in Ev. discriminate.
+          * rewrite !nodes_get_del, N.eqb_refl in Ev.
+            destruct (N.eqb_spec (gp T r (N.lxor x 1)) (gp T r x)); discriminate.
+    Qed.
+  End Prune.
+
+  Lemma Tidy_ext (V V' : nat -> N -> H -> bool -> Prop) (RT RT' : nat -> N -> Prop) R T nd :
+    (forall r o h l, V r o h l <-> V' r o h l) -> (forall r o, RT r o <-> RT' r o) ->
+    Tidy V RT R T nd -> Tidy V' RT' R T nd.
+  Proof.
+    intros HVV HRT [T1 T2].
+    assert (Hk : forall r o, known V RT R r o -> known V' RT' R r o).
+    { apply known_ext; [intros ? ? ? A; apply HVV, A|intros ? ? A; apply HRT, A]. }
+    split.
+    - intros r o h l Hv. apply HVV in Hv. exact (T1 _ _ _ _ Hv).
+    - intros r o h l Hv _ Hs. apply HVV in Hv.
+      destruct (T2 _ _ _ _ Hv (fun C => C) Hs) as [A|[A|[A B]]].
+      + left. apply HRT, A.
+      + right. left. exact (Hk _ _ A).
+      + right. right. split; [exact (Hk _ _ A)|]. intros C. apply B, HRT, C.
+  Qed.
+
+  Lemma tidyx_weaken V RT R T (E E' : nat -> N -> Prop) nd :
+    (forall r o, E r o -> E' r o) -> tidyx V RT R T E nd -> tidyx V RT R T E' nd.
+  Proof.
+    intros HE [T1 T2]. split; [exact T1|]. intros r o h l Hv Hn Hs.
+    apply (T2 _ _ _ _ Hv); [intros C; exact (Hn (HE _ _ C))|exact Hs].
+  Qed.
+
+  Section Puts.
+    Variables (V V' : nat -> N -> H -> bool -> Prop) (RT RT' : nat -> N -> Prop).
+    Variable T : N.
+    Hypothesis HV : Vok V RT T.
+    Hypothesis HV' : Vok V' RT' T.
+
+    (** the new leaf of a partial forest *)
+    Lemma put_leaf_tidy R nd q a (rem : bool) :
+      Tidy V RT R T nd ->
+      (forall r o h l, V' r o h l <-> V r o h l \/ (r = 0%nat /\ o = q /\ h = a /\ l = true)) ->
+      (forall r o, RT' r o <-> RT r o \/ (r = 0%nat /\ o = q)) ->
+      (forall h l, ~ V 0%nat q h l) ->
+      Tidy V' RT' (if rem then R ++ [a] else R) T (nodes_put (gp T 0 q) (a, rem) nd).
+    Proof.
+      intros [T1 T2] HVV HRT Hfree.
+      assert (Hnew : V' 0%nat q a true) by (apply HVV; right; auto).
+      assert (HR : forall h, In h R -> In h (if rem then R ++ [a] else R)).
+      { intros h Hh. destruct rem; [apply in_or_app; left|]; exact Hh. }
+      assert (Hk : forall r o, known V RT R r o -> known V' RT' (if rem then R ++ [a] else R) r o).
+      { intros r o Hk. induction Hk as [r o h Hv Hh|r o Hk IH Hn].
+        - apply (kn_leaf _ _ _ _ _ h); [apply HVV; left; exact Hv|exact (HR _ Hh)].
+        - apply kn_up; [exact IH|]. intros C. apply HRT in C as [C|[-> ->]]; [exact (Hn C)|].
+          destruct (known_V H V RT R T HV _ _ Hk) as (h & l & Hv). exact (Hfree _ _ Hv). }
+      assert (Hold : forall r o h l, V r o h l -> gp T r o <> gp T 0 q).
+      { intros r o h l Hv E. assert (Hv' : V' r o h l) by (apply HVV; left; exact Hv).
+        destruct (gp_inj' H V' RT' T HV' _ _ _ _ _ _ _ _ Hv' Hnew E) as (-> & -> & _). exact (Hfree _ _ Hv). }
+      split.
+      - intros r o h l Hv E. rewrite nodes_get_put in E.
+        apply HVV in Hv as [Hv|(-> & -> & -> & ->)].
+        + destruct (N.eqb_spec (gp T r o) (gp T 0 q)) as [C|_]; [exfalso; exact (Hold _ _ _ _ Hv C)|].
+          destruct (T1 _ _ _ _ Hv E) as [A B]. split; [exact A|exact (HR _ B)].
+        + rewrite N.eqb_refl in E. injection E as ->. split; [reflexivity|].
+          apply in_or_app. right. left. reflexivity.
+      - intros r o h l Hv _ Hs. rewrite nodes_get_put in Hs.
+        apply HVV in Hv as [Hv|(-> & -> & _)]; [|left; apply HRT; right; auto].
+        destruct (N.eqb_spec (gp T r o) (gp T 0 q)) as [C|_]; [exfalso; exact (Hold _ _ _ _ Hv C)|].
+        destruct (T2 _ _ _ _ Hv (fun C => C) Hs) as [A|[A|[A B]]].
+        + left. apply HRT. left. exact A.
+        + right. left. exact (Hk _ _ A).
+        + right. right. split; [exact (Hk _ _ A)|]. intros C. apply HRT in C as [C|[-> C]]; [exact (B C)|].
+          destruct (known_V H V RT R T HV _ _ A) as (h' & l' & Hv'). rewrite C in Hv'. exact (Hfree _ _ Hv').
+    Qed.
+
+    (** the new inner node of a partial forest (flag [false]); its children are still to prune *)
+    Lemma put_node_tidyx R nd r0 q hn :
+      Tidy V RT R T nd ->
+      (forall r o h l, V' r o h l <-> V r o h l \/ (r = S r0 /\ o = q /\ h = hn /\ l = false)) ->
+      (forall r o, RT' r o -> RT r o \/ (r = S r0 /\ o = q)) ->
+      (forall r o, RT r o -> RT' r o \/ (r = r0 /\ o / 2 = q)) ->
+      RT' (S r0) q ->
+      (forall h l, ~ V (S r0) q h l) ->
+      tidyx V' RT' R T (fun r o => r = r0 /\ o / 2 = q) (nodes_put (gp T (S r0) q) (hn, false) nd).
+    Proof.
+      intros [T1 T2] HVV HRT1 HRT2 Hnewr Hfree.
+      assert (Hnew : V' (S r0) q hn false) by (apply HVV; right; auto).
+      assert (Hnr' : forall r o, known V RT R r o -> ~ RT r o -> ~ RT' r o).
+      { intros r o Hk Hn C. apply HRT1 in C as [C|[-> ->]]; [exact (Hn C)|].
+        destruct (known_V H V RT R T HV _ _ Hk) as (h & l & Hv). exact (Hfree _ _ Hv). }
+      assert (Hk : forall r o, known V RT R r o -> known V' RT' R r o).
+      { intros r o Hk. induction Hk as [r o h Hv Hh|r o Hk IH Hn].
+        - apply (kn_leaf _ _ _ _ _ h); [apply HVV; left; exact Hv|exact Hh].
+        - apply kn_up; [exact IH|exact (Hnr' _ _ Hk Hn)]. }
+      assert (Hold : forall r o h l, V r o h l -> gp T r o <> gp T (S r0) q).
+      { intros r o h l Hv E. assert (Hv' : V' r o h l) by (apply HVV; left; exact Hv).
+        destruct (gp_inj' H V' RT' T HV' _ _ _ _ _ _ _ _ Hv' Hnew E) as (-> & -> & _). exact (Hfree _ _ Hv). }
+      split.
+      - intros r o h l Hv E. rewrite nodes_get_put in E.
+        apply HVV in Hv as [Hv|(-> & -> & -> & ->)].
+        + destruct (N.eqb_spec (gp T r o) (gp T (S r0) q)) as [C|_]; [exfalso; exact (Hold _ _ _ _ Hv C)|].
+          exact (T1 _ _ _ _ Hv E).
+        + rewrite N.eqb_refl in E. discriminate.
+      - intros r o h l Hv HnE Hs. rewrite nodes_get_put in Hs.
+        apply HVV in Hv as [Hv|(-> & -> & _)]; [|left; exact Hnewr].
+        destruct (N.eqb_spec (gp T r o) (gp T (S r0) q)) as [C|_]; [exfalso; exact (Hold _ _ _ _ Hv C)|].
+        destruct (T2 _ _ _ _ Hv (fun C => C) Hs) as [A|[A|[A B]]].
+        + left. destruct (HRT2 _ _ A) as [C|C]; [exact C|contradiction].
+        + right. left. exact (Hk _ _ A).
+        + right. right. split; [exact (Hk _ _ A)|exact (Hnr' _ _ A B)].
+    Qed.
+  End Puts.
+End TidyAbs.
+
+Arguments needed {H} V RT R r o.
+Arguments tidyx {H} V RT R T E nd.
+Arguments Tidy {H} V RT R T nd.
+Arguments Vrp {H} V RT.
+
+(** structure of the view of a list of placed trees *)
+Section EntriesStruct.
+  Variable H : Type.
+  Variable HO : ops H.
+  Notation entry := (nat * N * option (ctree H))%type.
+
+  Definition twf (F : list entry) : Prop :=
+    forall k lo c, In (k, lo, Some c) F -> cwf H HO c /\ (cheight H c <= k)%nat.
+
+  Lemma Vent_rp F T : ewf F T -> Vrp (Vent HO F) (RTent F).
+  Proof.
+    intros [Hal Hdis] r o (k & lo & t & He & -> & ->) h l ([[k2 lo2] t2] & y & He2 & Hy & Er & Eo & _).
+    destruct (Hal _ _ _ He) as (q & Eq & _). destruct (Hal _ _ _ He2) as (q2 & Eq2 & _).
+    destruct (place_entry_range H HO _ _ _ _ _ Eq2 Hy) as (Hrow & Y1 & Y2).
+    pose proof (p2_pos k) as Hp.
+    assert (Eo' : lo / p2 k = q) by (rewrite Eq; apply N.div_mul; lia).
+    rewrite Eo' in Eo. unfold nlo, nhi in Y1, Y2. rewrite Er, Eo, p2_S in Y1, Y2.
+    pose proof (N.div_mod' q 2) as Hdm. pose proof (N.mod_lt q 2 ltac:(lia)) as Hm.
+    destruct (Hdis _ _ _ _ _ _ He He2) as [E|[D|D]].
+    - injection E as -> _ _. lia.
+    - nia.
+    - nia.
+  Qed.
+
+  Lemma Vent_sib F T : ewf F T -> twf F -> forall r o h l, Vent HO F r o h l -> ~ RTent F r o ->
+    exists h' l', Vent HO F r (N.lxor o 1) h' l'.
+  Proof.
+    intros [Hal _] Hwf r o h l ([[k lo] t] & x & He & Hx & <- & <- & _) Hn.
+    destruct (Hal _ _ _ He) as (q & Eq & _).
+    pose proof Hx as Hx'. rewrite (place_entry_eq H HO k lo t q Eq) in Hx'.
+    assert (Eq' : lo / p2 k = q) by (rewrite Eq; apply N.div_mul; pose proof (p2_pos k); lia).
+    destruct t as [c|].
+    2:{ destruct Hx' as [Ex|[]]. exfalso. apply Hn. exists k, lo, None. rewrite <- Ex, Eq'. cbn. auto. }
+    destruct (Hwf _ _ _ He) as [Hc Hh].
+    destruct (place_tree_parent H c _ _ _ _ _ Hx') as [Ex|(p & Hp & _ & Epr & Epo)].
+    { exfalso. apply Hn. exists k, lo, (Some c). rewrite Ex, Eq'. cbn. auto. }
+    destruct (place_tree_cases H HO c k q true k p Hc Hh Hp)
+      as [[Hlf _]|[_ (r' & xl & xr & Er & Hxl & Hxr & Cl & Cr & _)]].
+    { (* a leaf has no node below it *)
+      exfalso. pose proof (place_tree_leaf_bottom H c k q true k p x Hp Hx' Hlf ltac:(lia)) as Hb.
+      apply Hb; unfold nlo, nhi; rewrite Epr, Epo, p2_S;
+        pose proof (N.div_mod' (noff x) 2); pose proof (N.mod_lt (noff x) 2 ltac:(lia));
+        pose proof (p2_pos (nrow x)); nia. }
+    assert (Er' : r' = nrow x) by lia. subst r'.
+    injection Cl as Clr Clo. injection Cr as Crr Cro. rewrite Epo in Clo, Cro.
+    destruct (lxor1_cases (noff x)) as [E|E].
+    - exists (nhash xl), (nleaf xl), (k, lo, Some c), xl.
+      rewrite (place_entry_eq H HO k lo _ q Eq). rewrite E. repeat split; auto.
+    - exists (nhash xr), (nleaf xr), (k, lo, Some c), xr.
+      rewrite (place_entry_eq H HO k lo _ q Eq). rewrite E. repeat split; auto.
+  Qed.
+
+  Lemma Fh_twf (s : slots H) (a : H) h : twf (Fh HO s a h).
+  Proof.
+    intros k lo c Hin. apply In_Fh in Hin as [Hin|E].
+    - apply In_Fold in Hin as [Hin _]. destruct (forest_entry H HO s _ _ _ Hin) as (_ & _ & _ & _ & _ & Et).
+      exact (compress_wf H HO _ _ _ (eq_sym Et)).
+    - injection E as -> _ Ec. unfold cl in Ec. exact (compress_wf H HO _ _ _ (eq_sym Ec)).
+  Qed.
+End EntriesStruct.
 
 (** * Part 4a': the step over an empty root, on the maps *)
 Section StepBMirror.
@@ -2374,6 +2744,150 @@ Section StepBAbs.
           unfold MapMutAdd.upo. rewrite <- rmbit_lxor1 by lia.
           fold (upo r (N.lxor o 1)). rewrite (Bm r (N.lxor o 1) v Hlt Hs' E). discriminate.
   Qed.
+
+  (** ** nothing else is stored *)
+  Lemma sub_lt_notroot r o : (r < h0)%nat -> inSub r o -> ~ RT r o /\ ~ RT' (S r) (upo r o).
+  Proof.
+    intros Hr Hs. split.
+    - intros C. apply HRTd in C as [C|[[-> _]|[-> _]]]; [|lia|lia].
+      exact (HRTrest _ _ C (sub_reg' T HT h0 Hh0 q Hq r o Hs)).
+    - intros C. apply HRT'd in C as [C|[C _]]; [|lia].
+      exact (HRTrest _ _ C (upo_reg' T HT h0 Hh0 q Hq r o (or_introl Hs))).
+  Qed.
+
+  Lemma sub_sib r o : (r < h0)%nat -> inSub r o -> inSub r (N.lxor o 1).
+  Proof.
+    intros Hr [Hle Ho]. split; [exact Hle|]. replace (h0 - r)%nat with (S (h0 - S r)) in * by lia.
+    rewrite p2_S in *. pose proof (lxor1_div2 o). pose proof (N.div_mod' o 2).
+    pose proof (N.div_mod' (N.lxor o 1) 2). pose proof (N.mod_lt o 2 ltac:(lia)).
+    pose proof (N.mod_lt (N.lxor o 1) 2 ltac:(lia)). lia.
+  Qed.
+
+  Lemma sub_parent r o : inSub (S r) (o / 2) -> inSub r o.
+  Proof.
+    intros [Hle Ho]. split; [lia|]. replace (h0 - r)%nat with (S (h0 - S r)) by lia.
+    rewrite p2_S. pose proof (N.div_mod' o 2). pose proof (N.mod_lt o 2 ltac:(lia)). lia.
+  Qed.
+
+  Lemma reg'_parent r o : (r <= h0)%nat -> inReg' r o -> inReg' (S r) (o / 2).
+  Proof.
+    intros Hr [Hle Ho]. split; [lia|]. replace (S h0 - r)%nat with (S (S h0 - S r)) in Ho by lia.
+    rewrite p2_S in Ho. pose proof (N.div_mod' o 2). pose proof (N.mod_lt o 2 ltac:(lia)). lia.
+  Qed.
+
+  Lemma known_fwd : forall r o, known V RT R r o ->
+    (inSub r o -> known V' RT' R (S r) (upo r o)) /\ (~ inReg' r o -> known V' RT' R r o).
+  Proof.
+    intros r o Hk. induction Hk as [r o k Hv Hk|r o Hk [IH1 IH2] Hn].
+    - apply HVd in Hv as [Hv|[(_ & _ & _ & C)|Hv]]; [|discriminate|].
+      + split.
+        * intros Hs. exfalso. exact (Hrest_out _ _ _ _ Hv (sub_reg' T HT h0 Hh0 q Hq r o Hs)).
+        * intros _. apply (kn_leaf _ _ _ _ _ k); [apply HV'd; left; exact Hv|exact Hk].
+      + split.
+        * intros _. exact (kn_leaf _ _ _ _ _ k (V'_up _ _ _ _ Hv) Hk).
+        * intros Hout. exfalso. exact (Hout (sub_reg' T HT h0 Hh0 q Hq r o (Hsub_in _ _ _ _ Hv))).
+    - split.
+      + intros Hs. pose proof (sub_parent r o Hs) as Hs0. destruct Hs as [Hle _].
+        destruct (sub_lt_notroot r o ltac:(lia) Hs0) as [_ Hn'].
+        replace (upo (S r) (o / 2)) with (upo r o / 2).
+        * apply kn_up; [exact (IH1 Hs0)|exact Hn'].
+        * unfold MapMutAdd.upo. rewrite rmbit_div2 by lia. f_equal. lia.
+      + intros Hout.
+        assert (Hout0 : ~ inReg' r o).
+        { intros C. destruct (Nat.le_gt_cases r h0) as [L|Gt]; [exact (Hout (reg'_parent r o L C))|].
+          destruct C as [Hle Ho]. assert (r = S h0) by lia. subst r.
+          rewrite Nat.sub_diag in Ho. change (p2 0) with 1 in Ho. assert (o = q) by lia. subst o.
+          destruct (known_V H V RT R T HV _ _ Hk) as (h & l & Hv). exact (HfreshP _ _ Hv). }
+        apply kn_up; [exact (IH2 Hout0)|]. intros C. apply HRT'd in C as [C|[-> ->]].
+        * apply Hn, HRTd. left. exact C.
+        * exact (Hout0 P'r).
+  Qed.
+
+  Lemma upo_inj r o1 o2 : inSub r o1 -> inSub r o2 -> upo r o1 = upo r o2 -> o1 = o2.
+  Proof.
+    intros H1 H2 E. rewrite (upo_sub T HT h0 Hh0 q Hq r o1 H1), (upo_sub T HT h0 Hh0 q Hq r o2 H2) in E.
+    destruct H1 as [_ A], H2 as [_ B]. lia.
+  Qed.
+
+  Lemma img_get : forall r o, (r < h0)%nat -> inSub r o ->
+    nodes_get nd3 (gp T (S r) (upo r o)) = nodes_get nd (gp T r o).
+  Proof.
+    intros r o Hr Hs.
+    pose proof (Bstep_moved H HO HOK T HT h0 Hh0 q Hq nd ca1 pNode HU nd2 ca2 Eap) as Bm.
+    pose proof (Bstep_back H HO HOK T HT h0 Hh0 q Hq nd ca1 pNode HU nd2 ca2 Eap) as Bb.
+    destruct (nodes_get nd (gp T r o)) as [v|] eqn:E; [exact (Bm r o v Hr Hs E)|].
+    destruct (nodes_get nd3 (gp T (S r) (upo r o))) as [v|] eqn:E'; [exfalso|reflexivity].
+    pose proof (upo_reg' T HT h0 Hh0 q Hq r o (or_introl Hs)) as Hreg.
+    destruct (reg'_valid T HT h0 Hh0 q Hq _ _ Hreg) as [A B].
+    destruct (Bb _ _ E') as [[Ep _]|[(r1 & o1 & Hr1 & Hs1 & Ep & E1)|(HpD & HpP0 & HpP & Hns & E1)]].
+    - destruct (reg'_valid T HT h0 Hh0 q Hq _ _ P'r) as [C D].
+      destruct (gp_inj T (S r) (upo r o) (S h0) q A B C D Ep) as [Er _]. lia.
+    - pose proof (upo_reg' T HT h0 Hh0 q Hq r1 o1 (or_introl Hs1)) as Hreg1.
+      destruct (reg'_valid T HT h0 Hh0 q Hq _ _ Hreg1) as [C D].
+      destruct (gp_inj T (S r) (upo r o) (S r1) (upo r1 o1) A B C D Ep) as [Er Eo].
+      assert (r1 = r) by lia. subst r1. rewrite (upo_inj r o o1 Hs Hs1 Eo) in E. congruence.
+    - destruct v as [hh b].
+      destruct (g_true G _ _ _ (nodes_get_In H _ _ _ E1)) as (r2 & o2 & l & Ep & Hv).
+      destruct (v_valid HV Hv) as [C D].
+      destruct (gp_inj T (S r) (upo r o) r2 o2 A B C D Ep) as [<- <-].
+      apply HVd in Hv as [Hv|[(Er & Eo & _)|Hv]].
+      + exact (Hrest_out _ _ _ _ Hv Hreg).
+      + apply HpD. rewrite Er, Eo. reflexivity.
+      + pose proof (Hsub_in _ _ _ _ Hv) as Hs2. destruct (Nat.eq_dec (S r) h0) as [Eh|Hne].
+        * rewrite Eh in Hs2. apply sub_top in Hs2. apply HpP0. rewrite Eh, Hs2. reflexivity.
+        * destruct Hs2 as [Hle Ho2]. apply (Hns (S r) (upo r o) ltac:(lia)); [split; assumption|reflexivity].
+  Qed.
+
+  Hypothesis HTd : Tidy V RT R T nd.
+
+  Theorem stepB_tidy : Tidy V' RT' R T nd3.
+  Proof.
+    destruct HTd as [T1 T2].
+    pose proof (Bstep_out H HO HOK T HT h0 Hh0 q Hq nd ca1 pNode HU nd2 ca2 Eap) as Bo.
+    assert (Bnew : nodes_get nd3 P' = Some pNode) by (rewrite nodes_get_put, N.eqb_refl; reflexivity).
+    assert (Hrest : forall r o hh l, Vrest r o hh l -> nodes_get nd3 (gp T r o) = nodes_get nd (gp T r o)).
+    { intros r o hh l Hv. assert (Hv0 : V r o hh l) by (apply HVd; left; exact Hv).
+      destruct (v_valid HV Hv0) as [A B]. exact (Bo r o A B (Hrest_out _ _ _ _ Hv)). }
+    split.
+    - intros r' o' h l Hv E. apply HV'd in Hv as [Hv|(r & o & Hv & -> & ->)].
+      + rewrite (Hrest _ _ _ _ Hv) in E. apply (T1 r' o' h l); [apply HVd; left; exact Hv|exact E].
+      + assert (Hv0 : V r o h l) by (apply HVd; right; right; exact Hv).
+        pose proof (Hsub_in _ _ _ _ Hv) as Hs. destruct (Nat.eq_dec r h0) as [->|Hne].
+        * apply sub_top in Hs. subst o. rewrite upo_top, Bnew in E. apply (T1 _ _ _ _ Hv0). congruence.
+        * destruct Hs as [Hle Ho]. rewrite (img_get r o ltac:(lia) (conj Hle Ho)) in E.
+          exact (T1 _ _ _ _ Hv0 E).
+    - intros r' o' h l Hv _ Hs. apply HV'd in Hv as [Hv|(r & o & Hv & -> & ->)].
+      + rewrite (Hrest _ _ _ _ Hv) in Hs. assert (Hv0 : V r' o' h l) by (apply HVd; left; exact Hv).
+        pose proof (Hrest_out _ _ _ _ Hv) as Hout.
+        destruct (T2 _ _ _ _ Hv0 (fun C => C) Hs) as [A|[A|[A B]]].
+        * left. apply HRT'd. left. apply HRTd in A as [A|[[-> ->]|[-> ->]]]; [exact A| |].
+          -- exfalso. exact (Hout Dr).
+          -- exfalso. exact (Hout P0r).
+        * right. left. exact (proj2 (known_fwd _ _ A) Hout).
+        * assert (Hout' : ~ inReg' r' (N.lxor o' 1)).
+          { intros [Hr Ho]. destruct (Nat.eq_dec r' (S h0)) as [->|Hne].
+            - rewrite Nat.sub_diag in Ho. change (p2 0) with 1 in Ho.
+              assert (Eq : N.lxor o' 1 = q) by lia. rewrite Eq in A.
+              destruct (known_V H V RT R T HV _ _ A) as (h' & l' & Hv'). exact (HfreshP _ _ Hv').
+            - apply Hout. split; [lia|]. replace (S h0 - r')%nat with (S (h0 - r')) in * by lia.
+              rewrite p2_S in *. pose proof (lxor1_div2 o'). pose proof (N.div_mod' o' 2).
+              pose proof (N.div_mod' (N.lxor o' 1) 2). pose proof (N.mod_lt o' 2 ltac:(lia)).
+              pose proof (N.mod_lt (N.lxor o' 1) 2 ltac:(lia)). lia. }
+          right. right. split; [exact (proj2 (known_fwd _ _ A) Hout')|].
+          intros C. apply HRT'd in C as [C|[-> C]]; [apply B, HRTd; left; exact C|].
+          rewrite C in Hout'. exact (Hout' P'r).
+      + pose proof (Hsub_in _ _ _ _ Hv) as Hs0. destruct (Nat.eq_dec r h0) as [->|Hne].
+        * apply sub_top in Hs0. subst o. left. apply HRT'd. right. rewrite upo_top. auto.
+        * pose proof Hs0 as [Hle Ho]. assert (Hlt : (r < h0)%nat) by lia.
+          rewrite (img_get r o Hlt Hs0) in Hs.
+          assert (Hv0 : V r o h l) by (apply HVd; right; right; exact Hv).
+          destruct (sub_lt_notroot r o Hlt Hs0) as [Hnr _].
+          destruct (T2 _ _ _ _ Hv0 (fun C => C) Hs) as [A|[A|[A B]]]; [contradiction| |].
+          -- right. left. exact (proj1 (known_fwd _ _ A) Hs0).
+          -- pose proof (sub_sib r o Hlt Hs0) as Hs1.
+             right. right. unfold MapMutAdd.upo. rewrite <- rmbit_lxor1 by lia. fold (upo r (N.lxor o 1)).
+             split; [exact (proj1 (known_fwd _ _ A) Hs1)|exact (proj2 (sub_lt_notroot _ _ Hlt Hs1))].
+  Qed.
 End StepBAbs.
 
 (** arithmetic helpers *)
@@ -2511,19 +3025,24 @@ Section Loop.
     (exists C, cl HO s a h = Some C /\ fst pNode = chash C) ->
     nodes_get (fst st) position = Some pNode ->
     GInv (Vh h) (RTh h) R' T (fst st) (snd st) ->
+    (full = false -> Tidy (Vh h) (RTh h) R' T (fst st)) ->
     exists st', as_loop HO fuel n T full a rem (N.of_nat h) pNode position st = Some st' /\
-                GInv (Vlay HO s') (RTlay HO s') R' T (fst st') (snd st').
+                GInv (Vlay HO s') (RTlay HO s') R' T (fst st') (snd st') /\
+                (full = false -> Tidy (Vlay HO s') (RTlay HO s') R' T (fst st')).
   Proof.
-    induction fuel as [|f IH]; intros h st pNode position Hf Ha Hpos (C & EC & EpN) Hpn G.
+    induction fuel as [|f IH]; intros h st pNode position Hf Ha Hpos (C & EC & EpN) Hpn G HTd.
     { pose proof (al_row h Ha) as Hr. clear -Hr Hf HT. lia. }
     cbn [as_loop]. rewrite bit_test.
     destruct (N.testbit n (N.of_nat h)) eqn:Hb.
     2:{ (* the loop ends: [Fh h] is the forest of [s'] *)
         exists st. split; [reflexivity|].
         destruct (Vent_ext H HO _ _ (fun e => forest_snoc_Fh H HO s a h e Ha Hb)) as [EV ER].
-        apply (GInv_ext H (Vh h) _ (RTh h) _ R' T); [| |exact G].
-        - intros r o hh l. rewrite Vlay_Vent. symmetry. apply EV.
-        - intros r o. rewrite RTlay_RTent. symmetry. apply ER. }
+        assert (EV' : forall r o hh l, Vh h r o hh l <-> Vlay HO s' r o hh l)
+          by (intros r o hh l; rewrite Vlay_Vent; symmetry; apply EV).
+        assert (ER' : forall r o, RTh h r o <-> RTlay HO s' r o)
+          by (intros r o; rewrite RTlay_RTent; symmetry; apply ER).
+        split; [exact (GInv_ext H (Vh h) _ (RTh h) _ R' T _ _ EV' ER' G)|].
+        intros Hfull. exact (Tidy_ext H (Vh h) _ (RTh h) _ R' T _ EV' ER' (HTd Hfull)). }
     pose proof (al_S H s h Ha Hb) as HaS. pose proof (alS_row h HaS) as HhT.
     assert (Hh63 : (h < 255)%nat) by (clear -HhT HT; lia).
     assert (Hf' : (64 - S h <= f)%nat) by (clear -Hf; lia).
@@ -2535,6 +3054,20 @@ Section Loop.
     { destruct (v_root HV' HrtS) as (h0 & l0 & Hv0). destruct (v_valid HV' Hv0) as [_ B].
       rewrite subS in B. exact B. }
     destruct (half_bound T h _ HhT Hq) as [Hq2 Hq3].
+    (* structure of the next view, for the pruning *)
+    assert (Hrp' : Vrp (Vh (S h)) (RTh (S h))) by (apply (Vent_rp H HO _ T), Fh_ewf; assumption).
+    assert (Hpair : (exists hh l, Vh (S h) h (2 * (n / p2 (S h))) hh l) <->
+                    (exists hh l, Vh (S h) h (N.lxor (2 * (n / p2 (S h))) 1) hh l)).
+    { assert (Hnr : forall o, ~ RTh (S h) h o).
+      { intros o C0. apply (step_roots_after H HO s a h _ _ HaS) in C0 as [C0|[C0 _]];
+          [|clear -C0; lia].
+        destruct C0 as (k & lo & t & He & -> & _). apply In_Fold in He as [_ Hk]. cbn [fst] in Hk.
+        clear -Hk. lia. }
+      pose proof (Fh_ewf H HO s a (S h) T HaS HnT) as Hewf. pose proof (Fh_twf H HO s a (S h)) as Htwf.
+      split; intros (hh & l & Hv).
+      - exact (Vent_sib H HO _ T Hewf Htwf _ _ _ _ Hv (Hnr _)).
+      - destruct (Vent_sib H HO _ T Hewf Htwf _ _ _ _ Hv (Hnr _)) as (h' & l' & Hv').
+        rewrite lxor1_invol in Hv'. eauto. }
     (* the root of row [h] *)
     assert (Erp : rootPosition n (N.of_nat h) T = gp T h (2 * (n / p2 (S h)))).
     { rewrite (rootPosition_gpos n (N.of_nat h) T HT (N.lt_le_incl _ _ HhT) HnT').
@@ -2585,13 +3118,32 @@ Section Loop.
           * right. split; [reflexivity|apply div2_odd].
         + intros o Eo. apply (step_roots_before H HO s a h _ _ HaS). right.
           destruct (two_cases _ _ Eo) as [-> | ->]; [left|right]; auto. }
-      apply IH; [exact Hf'|exact HaS|reflexivity| | |].
+      apply IH; [exact Hf'|exact HaS|reflexivity| | | |].
       + exists (CNode (hash2 (chash c) (chash C)) c C).
         rewrite (cl_S H HO s a h HaS), Ec, EC. cbn [join fst chash]. rewrite EpN. auto.
       + cbn [fst]. apply Hkeep. rewrite nodes_get_put, N.eqb_refl. reflexivity.
       + cbn [fst snd]. rewrite EpN.
         apply (prunePosition_preserves H HO (Vh (S h)) (RTh (S h)) R' T HV');
           [exact G1|exact HhT|exact Hq3|apply HnR|apply HnR].
+      + intros Hfull. cbn [fst snd]. rewrite EpN.
+        apply (prune_tidy H HO (Vh (S h)) (RTh (S h)) R' T HV' Hrp' _ (snd st) G1 h _ HhT Hq3
+                 (HnR _) (HnR _) Hpair).
+        apply (tidyx_weaken H (Vh (S h)) (RTh (S h)) R' T (fun r o => r = h /\ o / 2 = n / p2 (S h))).
+        { intros r o [-> Eo]. split; [reflexivity|]. destruct (two_cases _ _ Eo) as [-> | ->]; [left; reflexivity|].
+          right. rewrite lxor_1. replace (2 * (n / p2 (S h))) with (0 + 2 * (n / p2 (S h))) by (clear; lia).
+          rewrite N.even_add_mul_2. change (N.even 0) with true. cbv iota. clear. lia. }
+        rewrite Hfull.
+        apply (put_node_tidyx H (Vh h) (Vh (S h)) (RTh h) (RTh (S h)) T HV HV' R' _ h (n / p2 (S h))).
+        * exact (HTd Hfull).
+        * intros r o hh l. exact (stepA_view H HO s a h c C r o hh l HaS Ec EC).
+        * intros r o Hr. apply (step_roots_after H HO s a h _ _ HaS) in Hr as [Hr|Hr]; [left|right; exact Hr].
+          apply (step_roots_before H HO s a h _ _ HaS). left. exact Hr.
+        * intros r o Hr. apply (step_roots_before H HO s a h _ _ HaS) in Hr as [Hr|[[-> ->]|[-> ->]]].
+          -- left. apply (step_roots_after H HO s a h _ _ HaS). left. exact Hr.
+          -- right. split; [reflexivity|apply div2_even].
+          -- right. split; [reflexivity|apply div2_odd].
+        * exact HrtS.
+        * intros hh l. exact (Vh_free H HO s a h hh l HaS).
     - (* case B: the root is empty; the climbing tree moves up *)
       cbn [fst root_hash]. rewrite (Heqb_refl H HO HOK).
       assert (ED : DetectRow (gp T h (2 * (n / p2 (S h)))) T = N.of_nat h).
@@ -2633,14 +3185,356 @@ Section Loop.
         - rewrite <- E4, <- Hpos. exact Hpn.
         - exact EpN.
         - exact Eap. }
-      apply IH; [exact Hf'|exact HaS|reflexivity| | |].
+      assert (HTidyB : full = false -> Tidy (Vh (S h)) (RTh (S h)) R' T
+                                         (nodes_put (gp T (S h) (n / p2 (S h))) pNode nd2)).
+      { intros Hfull. rewrite EpN in Eap.
+        apply (stepB_tidy H HO HOK (Vh h) (Vh (S h)) (Vent HO (Fold HO s (S h)))
+                 (Vpt C h (2 * (n / p2 (S h)) + 1)) (RTh h) (RTh (S h)) (RTent (Fold HO s (S h)))
+                 R' T h (n / p2 (S h)) HV HhT Hq (chash C) (cleafb H C) a rem) with (ca := snd st) (ca2 := ca2) (nd := fst st).
+        - intros r o hh l. exact (stepB_view_before H HO s a h C r o hh l HaS Ec EC).
+        - intros r o hh l. exact (stepB_view_after H HO s a h C r o hh l HaS Ec EC HcC).
+        - intros r o hh l Hv. exact (Fold_out H HO s h r o hh l HaS Hv).
+        - intros r o hh l Hv. exact (Vpt_in_sub H C h _ r o hh l Hv).
+        - apply Vpt_head.
+        - intros r o. exact (step_roots_before H HO s a h r o HaS).
+        - intros r o. exact (step_roots_after H HO s a h r o HaS).
+        - intros r o (k & lo & t & He & -> & ->).
+          destruct (head_in_entry H HO k lo t) as (x & Hx & Er & Eo). rewrite <- Er at 1. rewrite <- Eo.
+          apply (Fold_out H HO s h _ _ (nhash x) (nleaf x) HaS). exists (k, lo, t), x.
+          repeat split; assumption || reflexivity.
+        - intros r o k l Hv Hk. rewrite <- E4 in Hv. exact (sep_cl h C r o k l Ha EC Hv Hk).
+        - intros El. pose proof (cl_has_a H HO s a h C Ha EC) as Hin.
+          destruct C as [k|k c1 c2]; [|discriminate]. destruct Hin as [<-|[]]. reflexivity.
+        - intros Er. apply rem_iff. exact Er.
+        - intros Hin. apply rem_iff. exact Hin.
+        - exact G.
+        - rewrite <- E4, <- Hpos. exact Hpn.
+        - exact Eap.
+        - exact (HTd Hfull). }
+      apply IH; [exact Hf'|exact HaS|reflexivity| | | |].
       + exists C. rewrite (cl_S H HO s a h HaS), Ec, EC. cbn [join]. auto.
       + cbn [fst]. apply Hkeep. rewrite nodes_get_put, N.eqb_refl. reflexivity.
       + cbn [fst snd].
         apply (prunePosition_preserves H HO (Vh (S h)) (RTh (S h)) R' T HV');
           [exact G1|exact HhT|exact Hq3|apply HnR|apply HnR].
+      + intros Hfull. cbn [fst snd].
+        apply (prune_tidy H HO (Vh (S h)) (RTh (S h)) R' T HV' Hrp' _ ca2 G1 h _ HhT Hq3
+                 (HnR _) (HnR _) Hpair).
+        apply (tidyx_weaken H (Vh (S h)) (RTh (S h)) R' T (fun _ _ => False)); [intros ? ? []|].
+        exact (HTidyB Hfull).
   Qed.
 End Loop.
+
+(** * Part 4c: [remap] when the forest is one full tree of [2^T] leaves *)
+Lemma maxpos_all :
+  forallb (fun T => forallb (fun r => if (1 <=? r) && (r <=? T)
+                                       then (fst (maxPositionAtRow r T (2 ^ T)) =? gstart T r + 2 ^ (T - r) - 1)
+                                            && negb (snd (maxPositionAtRow r T (2 ^ T)))
+                                       else true)
+                            (map N.of_nat (seq 0 64)))
+          (map N.of_nat (seq 0 63)) = true.
+Proof. vm_compute. reflexivity. Qed.
+
+Lemma maxpos_full T r : T <= 62 -> 1 <= r -> r <= T ->
+  maxPositionAtRow r T (2 ^ T) = (gstart T r + 2 ^ (T - r) - 1, false).
+Proof.
+  intros HT Hr HrT. pose proof maxpos_all as Hall. rewrite forallb_forall in Hall.
+  assert (Hin : forall k b, k < N.of_nat b -> In k (map N.of_nat (seq 0 b))).
+  { intros k b Hk. apply in_map_iff. exists (N.to_nat k). split; [lia|]. apply in_seq. lia. }
+  specialize (Hall T (Hin T 63%nat ltac:(lia))). rewrite forallb_forall in Hall.
+  specialize (Hall r (Hin r 64%nat ltac:(lia))).
+  destruct (N.leb_spec 1 r) as [_|C]; [|lia]. destruct (N.leb_spec r T) as [_|C]; [|lia].
+  cbn [andb] in Hall. apply Bool.andb_true_iff in Hall as [A B]. apply N.eqb_eq in A.
+  apply Bool.negb_true_iff in B. destruct (maxPositionAtRow r T (2 ^ T)) as [x y]. cbn [fst snd] in *.
+  congruence.
+Qed.
+
+Section Remap.
+  Variable H : Type.
+  Variable HO : ops H.
+  Hypothesis HOK : ops_ok HO.
+  Notation nodemap := (list (N * (H * bool))).
+  Notation cachemap := (list (H * N)).
+  Variable T : N.
+  Hypothesis HT : T <= 62.
+
+  Definition nmove (ct : N * N) (nd : nodemap) : nodemap :=
+    match nodes_get nd (fst ct) with
+    | Some v => nodes_put (snd ct) v (nodes_del (fst ct) nd)
+    | None => nd
+    end.
+
+  Lemma move1_fst ct (nd : nodemap) (ca : cachemap) : fst (move1 H HO ct (nd, ca)) = nmove ct nd.
+  Proof. unfold move1, nmove. cbn [fst snd]. destruct (nodes_get nd (fst ct)); reflexivity. Qed.
+
+  Lemma apply_moves_fst ms : forall (nd : nodemap) (ca : cachemap),
+    fst (apply_moves H HO ms (nd, ca)) = fold_left (fun nd ct => nmove ct nd) ms nd.
+  Proof.
+    induction ms as [|ct ms IH]; intros nd ca; [reflexivity|]. cbn [apply_moves fold_left].
+    fold (apply_moves H HO ms (move1 H HO ct (nd, ca))).
+    destruct (move1 H HO ct (nd, ca)) as [nd1 ca1] eqn:E. rewrite IH. f_equal.
+    rewrite <- (move1_fst ct nd ca), E. reflexivity.
+  Qed.
+
+  (** the step of the loop of [remap] *)
+  Definition rstep (acc : option nodemap) (i : N) : option nodemap :=
+    match acc with
+    | None => None
+    | Some nd =>
+        let h := DetectRow i T in
+        if (h =? 0) || (T <? h) then Some nd
+        else
+          let mp := maxPositionAtRow h T (2 ^ T) in
+          if snd mp then None
+          else if (startPositionAtRow h T <=? i) && (i <=? fst mp) then
+            match nodes_get nd i with
+            | Some v =>
+                let j := add64 (startPositionAtRow h (T + 1)) (sub64 i (startPositionAtRow h T)) in
+                Some (nodes_put j v (nodes_del i nd))
+            | None => Some nd
+            end
+          else Some nd
+    end.
+
+  Definition rmoves (keys : list (nat * N)) : list (N * N) :=
+    flat_map (fun c : nat * N => match fst c with
+                                  | O => []
+                                  | S _ => [(gp T (fst c) (snd c), gp (T + 1) (fst c) (snd c))]
+                                  end) keys.
+
+  Lemma rstep_eq r o (nd : nodemap) : N.of_nat r <= T -> o < 2 ^ (T - N.of_nat r) ->
+    rstep (Some nd) (gp T r o) =
+    Some (fold_left (fun nd ct => nmove ct nd) (rmoves [(r, o)]) nd).
+  Proof.
+    intros Hr Ho. unfold rstep, gp.
+    rewrite (DetectRow_gpos T (N.of_nat r) o ltac:(lia) Hr Ho).
+    destruct r as [|r']; [reflexivity|]. cbn [rmoves flat_map fst snd app fold_left].
+    destruct (N.eqb_spec (N.of_nat (S r')) 0) as [E|_]; [lia|].
+    destruct (N.ltb_spec T (N.of_nat (S r'))) as [E|_]; [lia|]. cbn [orb].
+    rewrite (maxpos_full T (N.of_nat (S r')) HT ltac:(lia) Hr). cbn [fst snd].
+    rewrite (startPositionAtRow_gstart (N.of_nat (S r')) T ltac:(lia) Hr).
+    rewrite (startPositionAtRow_gstart (N.of_nat (S r')) (T + 1) ltac:(lia) ltac:(lia)).
+    unfold UtilsGeom.gpos at 1 2.
+    destruct (N.leb_spec (gstart T (N.of_nat (S r'))) (gstart T (N.of_nat (S r')) + o)) as [_|C]; [|lia].
+    destruct (N.leb_spec (gstart T (N.of_nat (S r')) + o)
+                (gstart T (N.of_nat (S r')) + 2 ^ (T - N.of_nat (S r')) - 1)) as [_|C]; [|lia].
+    cbn [andb]. unfold nmove, gp. cbn [fst snd]. fold (gpos T (N.of_nat (S r')) o).
+    destruct (nodes_get nd (gpos T (N.of_nat (S r')) o)) as [v|]; [|reflexivity].
+    f_equal. f_equal.
+    assert (Hw : gpos T (N.of_nat (S r')) o < W).
+    { apply gpos_lt_W; [lia|exact Hr|exact Ho]. }
+    unfold UtilsGeom.gpos in *. rewrite sub64_small by lia.
+    replace (gstart T (N.of_nat (S r')) + o - gstart T (N.of_nat (S r'))) with o by lia.
+    unfold add64. apply wrap_small.
+    assert (Ho' : o < 2 ^ (T + 1 - N.of_nat (S r'))).
+    { assert (2 ^ (T - N.of_nat (S r')) <= 2 ^ (T + 1 - N.of_nat (S r'))) by (apply UtilsGeom.pow2_le; lia). lia. }
+    pose proof (gpos_lt_W (T + 1) (N.of_nat (S r')) o ltac:(lia) ltac:(lia) Ho') as Hw'.
+    unfold UtilsGeom.gpos in Hw'. exact Hw'.
+  Qed.
+
+  Lemma rstep_fold : forall (keys : list (nat * N)) (nd : nodemap),
+    (forall c, In c keys -> N.of_nat (fst c) <= T /\ snd c < 2 ^ (T - N.of_nat (fst c))) ->
+    fold_left rstep (map (fun c => gp T (fst c) (snd c)) keys) (Some nd) =
+    Some (fold_left (fun nd ct => nmove ct nd) (rmoves keys) nd).
+  Proof.
+    induction keys as [|[r o] keys IH]; intros nd Hval; [reflexivity|].
+    cbn [map fold_left fst snd]. destruct (Hval (r, o) (or_introl eq_refl)) as [A B]. cbn [fst snd] in A, B.
+    rewrite (rstep_eq r o nd A B), IH by (intros c Hc; apply Hval; right; exact Hc).
+    replace (rmoves ((r, o) :: keys)) with (rmoves [(r, o)] ++ rmoves keys)
+      by (unfold rmoves; cbn [flat_map]; rewrite app_nil_r; reflexivity).
+    rewrite fold_left_app. reflexivity.
+  Qed.
+
+  Lemma In_rmoves kc c t : In (c, t) (rmoves kc) <->
+    exists r o, In (S r, o) kc /\ c = gp T (S r) o /\ t = gp (T + 1) (S r) o.
+  Proof.
+    unfold rmoves. rewrite in_flat_map. split.
+    - intros ([r o] & Hin & Hx). cbn [fst snd] in Hx. destruct r as [|r]; [destruct Hx|].
+      destruct Hx as [E|[]]. injection E as <- <-. exists r, o. auto.
+    - intros (r & o & Hin & -> & ->). exists (S r, o). split; [exact Hin|]. left. reflexivity.
+  Qed.
+
+  Lemma valid_up r o : N.of_nat r <= T -> o < 2 ^ (T - N.of_nat r) ->
+    N.of_nat r <= T + 1 /\ o < 2 ^ (T + 1 - N.of_nat r).
+  Proof.
+    intros A B. split; [lia|].
+    assert (2 ^ (T - N.of_nat r) <= 2 ^ (T + 1 - N.of_nat r)) by (apply UtilsGeom.pow2_le; lia). lia.
+  Qed.
+
+  Lemma old_pos_small r o : N.of_nat r <= T -> o < 2 ^ (T - N.of_nat r) -> gp T r o < 2 ^ (T + 1) - 1.
+  Proof.
+    intros A B. unfold gp. pose proof (gpos_range T (N.of_nat r) o A B).
+    pose proof (UtilsGeom.pow2_S T). pose proof (UtilsGeom.pow2_pos T). lia.
+  Qed.
+
+  Lemma new_pos_big r o : gp (T + 1) (S r) o >= 2 ^ (T + 1).
+  Proof.
+    unfold gp, UtilsGeom.gpos, UtilsGeom.gstart.
+    assert (E : 2 ^ (T + 1 + 1) = 2 * 2 ^ (T + 1)) by apply UtilsGeom.pow2_S. rewrite E.
+    destruct (N.le_gt_cases (N.of_nat (S r)) (T + 1 + 1)) as [L|G].
+    - assert (2 ^ (T + 1 + 1 - N.of_nat (S r)) <= 2 ^ (T + 1)) by (apply UtilsGeom.pow2_le; lia). lia.
+    - replace (T + 1 + 1 - N.of_nat (S r)) with 0 by lia. change (2 ^ 0) with 1.
+      pose proof (UtilsGeom.pow2_pos (T + 1)). lia.
+  Qed.
+
+  Variables (V : nat -> N -> H -> bool -> Prop) (RT : nat -> N -> Prop) (R : list H).
+  Hypothesis HV : Vok V RT T.
+  Variables (nd : nodemap) (ca : cachemap).
+  Hypothesis G : GInv V RT R T nd ca.
+
+  Definition gpc (c : nat * N) : N := gp T (fst c) (snd c).
+  Definition cvalid (c : nat * N) : Prop := N.of_nat (fst c) <= T /\ snd c < 2 ^ (T - N.of_nat (fst c)).
+
+  Lemma key_coord i : In i (map fst nd) -> exists c, cvalid c /\ i = gpc c.
+  Proof.
+    intros Hin. apply in_map_iff in Hin as ([k [h b]] & <- & Hin).
+    destruct (g_true G _ _ _ Hin) as (r & o & l & E & Hv). exists (r, o). split; [exact (v_valid HV Hv)|exact E].
+  Qed.
+
+  Lemma coords_of : forall l : list N, (forall i, In i l -> exists c, cvalid c /\ i = gpc c) ->
+    exists kc, l = map gpc kc /\ forall c, In c kc -> cvalid c.
+  Proof.
+    induction l as [|i l IH]; intros Hall; [exists []; split; [reflexivity|intros ? []]|].
+    destruct (Hall i (or_introl eq_refl)) as (c & Hc & ->).
+    destruct (IH (fun j Hj => Hall j (or_intror Hj))) as (kc & -> & Hkc).
+    exists (c :: kc). split; [reflexivity|]. intros d [<-|Hd]; [exact Hc|exact (Hkc d Hd)].
+  Qed.
+
+  Lemma gpc_inj c d : cvalid c -> cvalid d -> gpc c = gpc d -> c = d.
+  Proof.
+    intros [A B] [C D] E. destruct c as [r o], d as [r' o']. cbn [fst snd] in *.
+    destruct (gp_inj T r o r' o' A B C D E) as [-> ->]. reflexivity.
+  Qed.
+
+  Lemma rmoves_safe : forall kc, (forall c, In c kc -> cvalid c) -> NoDup (map gpc kc) ->
+    safe H (rmoves kc) nd.
+  Proof.
+    induction kc as [|[r o] kc IH]; intros Hval Hnd; [exact I|].
+    cbn [map] in Hnd. inversion Hnd as [|x y Hnin Hnd']; subst.
+    assert (IH' := IH (fun c Hc => Hval c (or_intror Hc)) Hnd').
+    destruct r as [|r]; [exact IH'|].
+    change (rmoves ((S r, o) :: kc)) with ((gp T (S r) o, gp (T + 1) (S r) o) :: rmoves kc).
+    cbn [safe]. split; [|exact IH'].
+    intros c' t' Hin. apply In_rmoves in Hin as (r' & o' & Hin & -> & ->).
+    destruct (Hval _ (or_introl eq_refl)) as [A B]. destruct (Hval _ (or_intror Hin)) as [C D].
+    cbn [fst snd] in A, B, C, D. split; [|split].
+    - intros E. apply Hnin. apply in_map_iff. exists (S r', o'). split; [exact E|exact Hin].
+    - pose proof (old_pos_small (S r') o' C D). pose proof (new_pos_big r o). lia.
+    - intros _ _ E. destruct (valid_up _ _ A B) as [A' B']. destruct (valid_up _ _ C D) as [C' D'].
+      destruct (gp_inj (T + 1) (S r') o' (S r) o C' D' A' B' E) as [Er Eo].
+      apply Hnin. apply in_map_iff. exists (S r', o'). split; [|exact Hin]. unfold gpc. cbn [fst snd].
+      rewrite Er, Eo. reflexivity.
+  Qed.
+
+  (** the node map after [remap] *)
+  Theorem remap_nodes : exists nd',
+    fold_left (rstep) (keys_sorted nd) (Some nd) = Some nd' /\
+    NoDup (map fst nd') /\
+    (forall r o, N.of_nat r <= T -> o < 2 ^ (T - N.of_nat r) ->
+       nodes_get nd' (gp (T + 1) r o) = nodes_get nd (gp T r o)) /\
+    (forall p v, nodes_get nd' p = Some v ->
+       exists r o, N.of_nat r <= T /\ o < 2 ^ (T - N.of_nat r) /\ p = gp (T + 1) r o /\
+                   nodes_get nd (gp T r o) = Some v).
+  Proof.
+    assert (Hkeys : forall i, In i (keys_sorted nd) <-> In i (map fst nd)).
+    { intros i. unfold keys_sorted. apply RefTheory.sortN_In. }
+    destruct (coords_of (keys_sorted nd)) as (kc & Ekc & Hkc).
+    { intros i Hi. apply key_coord, Hkeys, Hi. }
+    assert (Hnd : NoDup (map gpc kc)).
+    { rewrite <- Ekc. unfold keys_sorted.
+      eapply Permutation.Permutation_NoDup; [apply Permutation.Permutation_sym, pps_sortN_perm|exact (g_nodup G)]. }
+    rewrite Ekc. change (map gpc kc) with (map (fun c : nat * N => gp T (fst c) (snd c)) kc).
+    rewrite (rstep_fold kc nd Hkc), <- (apply_moves_fst (rmoves kc) nd []).
+    destruct (apply_moves H HO (rmoves kc) (nd, [])) as [nd' ca0] eqn:Eap. cbn [fst].
+    destruct (apply_moves_spec H HO HOK (rmoves kc) nd [] (rmoves_safe kc Hkc Hnd) nd' ca0 Eap)
+      as (Ia & _ & Ic & Iback & Ind & _).
+    assert (Hkey_in : forall r o v, N.of_nat r <= T -> o < 2 ^ (T - N.of_nat r) ->
+              nodes_get nd (gp T r o) = Some v -> In (r, o) kc).
+    { intros r o v A B E.
+      assert (Hin : In (gp T r o) (map gpc kc)).
+      { rewrite <- Ekc. apply Hkeys. apply nodes_get_In in E. apply in_map_iff. exists (gp T r o, v). auto. }
+      apply in_map_iff in Hin as (c & Ec & Hc).
+      rewrite (gpc_inj c (r, o) (Hkc c Hc) (conj A B) Ec) in Hc. exact Hc. }
+    assert (Hback : forall p v, nodes_get nd' p = Some v ->
+              exists r o, N.of_nat r <= T /\ o < 2 ^ (T - N.of_nat r) /\ p = gp (T + 1) r o /\
+                          nodes_get nd (gp T r o) = Some v).
+    { intros p v Ep. destruct (Iback p v Ep) as [(c & t & Hin & -> & Ec)|[Hno Ep0]].
+      - apply In_rmoves in Hin as (r & o & Hin & -> & ->). destruct (Hkc _ Hin) as [A B].
+        exists (S r), o. auto.
+      - destruct (key_coord p) as ([r o] & [A B] & Ec).
+        { apply nodes_get_In in Ep0. apply in_map_iff. exists (p, v). auto. }
+        cbn [fst snd] in A, B. unfold gpc in Ec. cbn [fst snd] in Ec.
+        destruct r as [|r].
+        + exists 0%nat, o. rewrite gp_0 in Ec. rewrite gp_0. rewrite gp_0. subst p. auto.
+        + exfalso. apply (Hno (gp T (S r) o) (gp (T + 1) (S r) o)); [|exact Ec].
+          apply In_rmoves. exists r, o. split; [|auto]. rewrite Ec in Ep0.
+          exact (Hkey_in (S r) o v A B Ep0). }
+    exists nd'. split; [reflexivity|]. split; [exact (Ind (g_nodup G))|]. split; [|exact Hback].
+    intros r o A B. destruct (nodes_get nd (gp T r o)) as [v|] eqn:E.
+    - destruct r as [|r].
+      + rewrite gp_0 in *. rewrite Ic; [exact E|]. intros c t Hin.
+        apply In_rmoves in Hin as (r' & o' & Hin & -> & ->). destruct (Hkc _ Hin) as [C D].
+        cbn [fst snd] in C, D.
+        assert (Hlt : o < gp T (S r') o').
+        { unfold gp. rewrite <- (gp_0 T o) at 1. unfold gp. apply gpos_row_mono; [lia|exact C|].
+          change (N.of_nat 0) with 0. rewrite N.sub_0_r in *. exact B. }
+        split; [lia|]. intros _. pose proof (new_pos_big r' o').
+        assert (o < 2 ^ (T + 1)). { rewrite N.sub_0_r in B. rewrite UtilsGeom.pow2_S. lia. } lia.
+      + rewrite (Ia (gp T (S r) o) (gp (T + 1) (S r) o)); [exact E| |unfold sto; rewrite E; discriminate].
+        apply In_rmoves. exists r, o. split; [exact (Hkey_in (S r) o v A B E)|auto].
+    - destruct (nodes_get nd' (gp (T + 1) r o)) as [v|] eqn:E'; [exfalso|reflexivity].
+      destruct (Hback _ _ E') as (r1 & o1 & A1 & B1 & Ep & E1).
+      destruct (valid_up _ _ A B) as [A' B']. destruct (valid_up _ _ A1 B1) as [A1' B1'].
+      destruct (gp_inj (T + 1) r o r1 o1 A' B' A1' B1' Ep) as [-> ->]. congruence.
+  Qed.
+
+  Theorem remap_tidy nd' :
+    (forall r o, N.of_nat r <= T -> o < 2 ^ (T - N.of_nat r) ->
+       nodes_get nd' (gp (T + 1) r o) = nodes_get nd (gp T r o)) ->
+    Tidy V RT R T nd -> Tidy V RT R (T + 1) nd'.
+  Proof.
+    intros K1 [T1 T2]. split.
+    - intros r o h l Hv E. destruct (v_valid HV Hv) as [A B]. rewrite (K1 r o A B) in E.
+      exact (T1 _ _ _ _ Hv E).
+    - intros r o h l Hv _ Hs. destruct (v_valid HV Hv) as [A B]. rewrite (K1 r o A B) in Hs.
+      exact (T2 _ _ _ _ Hv (fun C => C) Hs).
+  Qed.
+
+  Hypothesis HV1 : Vok V RT (T + 1).
+
+  Theorem remap_GInv nd' :
+    NoDup (map fst nd') ->
+    (forall r o, N.of_nat r <= T -> o < 2 ^ (T - N.of_nat r) ->
+       nodes_get nd' (gp (T + 1) r o) = nodes_get nd (gp T r o)) ->
+    (forall p v, nodes_get nd' p = Some v ->
+       exists r o, N.of_nat r <= T /\ o < 2 ^ (T - N.of_nat r) /\ p = gp (T + 1) r o /\
+                   nodes_get nd (gp T r o) = Some v) ->
+    GInv V RT R (T + 1) nd' (map (fun e : H * N => (fst e, translatePos (snd e) T (T + 1))) ca).
+  Proof.
+    intros Hnd K1 K2. constructor.
+    - exact Hnd.
+    - intros p h b Hin. apply (nodes_get_In_iff H _ _ _ Hnd) in Hin.
+      destruct (K2 _ _ Hin) as (r & o & A & B & -> & E).
+      destruct (g_true G _ _ _ (nodes_get_In H _ _ _ E)) as (r1 & o1 & l & Ep & Hv).
+      destruct (v_valid HV Hv) as [A1 B1]. destruct (gp_inj T r o r1 o1 A B A1 B1 Ep) as [-> ->].
+      exists r1, o1, l. auto.
+    - intros h. rewrite map_map. cbn [fst]. exact (g_cR G h).
+    - intros h p Hin. apply in_map_iff in Hin as ([h' p'] & E & Hin). cbn [fst snd] in E.
+      injection E as -> <-. destruct (g_cpos G _ _ Hin) as (r & o & Hv & ->).
+      exists r, o. split; [exact Hv|]. destruct (v_valid HV Hv) as [A B].
+      destruct (valid_up r o A B) as [A' B']. unfold gp.
+      apply translatePos_gpos; try assumption; lia.
+    - exact (g_Rin G).
+    - intros r o Hr. destruct (v_root HV Hr) as (h & l & Hv). destruct (v_valid HV Hv) as [A B].
+      rewrite (K1 r o A B). exact (g_roots G Hr).
+    - intros r o h Hv Hh. destruct (v_valid HV Hv) as [A B]. rewrite (K1 r o A B).
+      exact (g_tgt G Hv Hh).
+    - intros r o Hk Hn. destruct (known_valid H V RT R T HV _ _ Hk Hn) as [A B].
+      rewrite (K1 r (N.lxor o 1) ltac:(lia) (lxor1_valid T r o A B)). exact (g_sibs G Hk Hn).
+  Qed.
+End Remap.
+
+
 
 (** * Part 5: [addSingle], [add], [Modify] without deletions *)
 Section Add.
@@ -2661,11 +3555,12 @@ Section Add.
     inv_T63 : ms_total m <= 63;
     inv_nodup : NoDup (live s);
     inv_live : StumpAdd.live_ok H HO s;
-    inv_g : GInv (Vlay HO s) (RTlay HO s) R (ms_total m) (ms_nodes m) (ms_cached m) }.
+    inv_g : GInv (Vlay HO s) (RTlay HO s) R (ms_total m) (ms_nodes m) (ms_cached m);
+    inv_tidy : ms_full m = false -> Tidy (Vlay HO s) (RTlay HO s) R (ms_total m) (ms_nodes m) }.
 
   Theorem Inv_consistent s R m : Inv s R m -> consistent HO s R m.
   Proof.
-    intros [A B C D E F G]. apply (GInv_consistent H HO HOK); assumption.
+    intros [A B C D E F G _]. apply (GInv_consistent H HO HOK); assumption.
   Qed.
 
   (** the flag of a remembered leaf is set *)
@@ -2692,11 +3587,62 @@ Section Add.
       + intros r o (x & [] & _).
       + intros r o h _ [].
       + intros r o Hk. exfalso. induction Hk as [r o h _ []|r o _ IH _]; exact IH.
+    - intros _. split; [intros r o h l _ E; discriminate|intros r o h l _ _ E; exfalso; apply E; reflexivity].
   Qed.
 
-  (** no empty root among the trailing trees (the trees merged by the next addition) *)
-  Definition no_trailing_empty (s : slots H) : Prop :=
-    forall h, al s (S h) -> oldt HO s h <> None.
+  (** G4: a partial forest stores nothing beyond the roots, the remembered leaves with their
+      ancestors' siblings ... : every stored position is one the reference allows *)
+  Theorem Inv_stores_allowed s R m : Inv s R m -> ms_full m = false ->
+    forall p, In p (stored_min m) -> exists al, allowed_pos HO s R = Some al /\ In p al.
+  Proof.
+    intros I Hfull p Hp. pose proof (Inv_consistent s R m I) as Hc.
+    destruct I as [En En63 Hrows HT Hnd Hlive G HTd]. destruct (HTd Hfull) as [_ T2].
+    set (lay := layout HO s) in *. set (T := ms_total m) in *.
+    destruct (R_leaves H HO HOK s R m Hc) as (ts & Hts). fold lay in Hts.
+    assert (Hn63 : N.of_nat (length s) <= 2 ^ 63) by (unfold num_leaves in En; lia).
+    assert (Hts_lay : forall x, In x ts -> In x lay).
+    { intros x Hx. apply (RefTheory.find_leaves_In H HO _ _ _ Hts) in Hx as (h & _ & Hx).
+      exact (proj1 (find_leaf_spec H HO HOK _ _ _ Hx)). }
+    assert (Hleaf : forall h x, In x lay -> nleaf x = true -> nhash x = h ->
+              find_leaf HO lay h = Some x).
+    { intros h x Hx Hl Hh.
+      destruct (find_leaf_ex H HO lay h HOK) as [y Hy]; [exists x; auto|].
+      rewrite Hy. f_equal. destruct (find_leaf_spec H HO HOK _ _ _ Hy) as (Hyin & Hyl & Hyh).
+      apply (live_leaf_unique H HO s y x Hnd); auto. congruence. }
+    assert (Hroot : forall r o, ~ RTlay HO s r o -> is_root_coord lay (r, o) = false).
+    { intros r o Hn. unfold is_root_coord. cbn [fst snd].
+      destruct (find_coord lay r o) as [x|] eqn:E; [|reflexivity].
+      destruct (nroot x) eqn:Er; [|reflexivity]. exfalso. apply Hn.
+      apply find_coord_some in E as (Hx & Exr & Exo). exists x. auto. }
+    assert (Hknown : forall r o, known (Vlay HO s) (RTlay HO s) R r o -> In (r, o) (known_set lay ts)).
+    { intros r o Hk. induction Hk as [r o h (x & Hx & <- & <- & Eh & El) Hh|r o _ IH Hn].
+      - apply RefTheory.known_set_target. apply (RefTheory.find_leaves_In H HO _ _ _ Hts).
+        exists h. split; [exact Hh|apply Hleaf; assumption].
+      - exact (proj1 (known_closed H HO s Hn63 ts Hts_lay (r, o) IH (Hroot _ _ Hn))). }
+    unfold allowed_pos. fold lay. rewrite Hts. eexists. split; [reflexivity|].
+    rewrite RefTheory.sortN_In, RefTheory.dedupN_In, !in_app_iff.
+    (* the stored position is the position of a node *)
+    unfold stored_min in Hp. apply in_map_iff in Hp as (k & Ek & Hk).
+    apply in_map_iff in Hk as ([k' [h b]] & Ek' & Hin). cbn [fst] in Ek'. subst k'.
+    destruct (g_true G _ _ _ Hin) as (r & o & l & Ekp & (x & Hx & Er & Eo & Eh & El)).
+    assert (Ep : p = npos (rows_of (num_leaves s)) x).
+    { rewrite <- Ek, Ekp, <- Er, <- Eo. exact (translate_node H HO s R m Hc x Hx). }
+    assert (Hst : nodes_get (ms_nodes m) (gp T r o) <> None).
+    { rewrite <- Ekp. exact (In_nodes_get H _ _ _ Hin). }
+    assert (Hv : Vlay HO s r o h l) by (exists x; auto).
+    destruct (T2 r o h l Hv (fun C => C) Hst) as [(y & Hy & Hyr & Eyr & Eyo)|[Hk|[Hk Hn]]].
+    - left. rewrite Ep. apply in_map, filter_In. split; [exact Hx|].
+      rewrite (node_coord_eq H HO s x y Hx Hy ltac:(congruence) ltac:(congruence)). exact Hyr.
+    - right. left. apply in_map_iff. exists (r, o). split; [|exact (Hknown _ _ Hk)].
+      rewrite Ep. unfold npos. cbn [fst snd]. congruence.
+    - right. right. apply in_map_iff. exists (r, o). split; [rewrite Ep; unfold npos; cbn [fst snd]; congruence|].
+      apply in_flat_map. exists (r, N.lxor o 1). split; [exact (Hknown _ _ Hk)|].
+      rewrite (Hroot _ _ Hn). left. unfold sib_coord. cbn [fst snd]. rewrite lxor1_invol. reflexivity.
+  Qed.
+
+  (** no inner node of the forest has the hash of a remembered leaf *)
+  Definition leaf_sep (s : slots H) (R : list H) : Prop :=
+    forall x, In x (layout HO s) -> In (nhash x) R -> nleaf x = true.
 
   Lemma add64_1 n : n + 1 <= 2 ^ 63 -> add64 n 1 = n + 1.
   Proof.
@@ -2714,14 +3660,15 @@ Section Add.
   (** G1: one addition that fits into the allocated rows *)
   Theorem addSingle_Inv s R m a (rem0 : bool) :
     Inv s R m -> N.of_nat (length s) + 1 <= 2 ^ ms_total m ->
-    ~ In (Some a) s -> Heqb a empty = false -> no_trailing_empty s ->
+    ~ In (Some a) s -> Heqb a empty = false ->
+    leaf_sep (s ++ [Some a]) (if ms_full m || rem0 then R ++ [a] else R) ->
     exists nd ca,
       addSingle HO (ms_n m) (ms_total m) (ms_full m) (a, rem0) (ms_nodes m, ms_cached m)
         = Some (ms_total m, (nd, ca)) /\
       Inv (s ++ [Some a]) (if ms_full m || rem0 then R ++ [a] else R)
           (mkM nd ca (ms_n m + 1) (ms_total m) (ms_full m)).
   Proof.
-    intros I HnT Hfresh Hne Hnte. destruct I as [En En63 Hrows HT Hnd Hlive G].
+    intros I HnT Hfresh Hne Hsep. destruct I as [En En63 Hrows HT Hnd Hlive G HTd].
     unfold num_leaves in En. set (T := ms_total m) in *. set (n := N.of_nat (length s)) in *.
     assert (Hn63 : n + 1 <= 2 ^ 63).
     { assert (2 ^ T <= 2 ^ 63) by (apply UtilsGeom.pow2_le; exact HT). lia. }
@@ -2750,13 +3697,28 @@ Section Add.
         rewrite p2_0, N.div_1_r. tauto.
       - intros r o (x & Hx & _ & _ & Eh & El). apply Hfresh. rewrite <- Eh.
         apply (layout_leaf_live H HO); assumption. }
-    destruct (as_loop_ok H HO Hh2 s a T (ms_full m) rem R HnT HT Hlive Hnte 65 0
+    assert (HaR : ~ In a R).
+    { intros Ha. destruct (g_Rin G _ Ha) as (r & o & x & Hx & _ & _ & Eh & El). apply Hfresh.
+      rewrite <- Eh. apply (layout_leaf_live H HO); assumption. }
+    destruct (as_loop_ok H HO HOK Hh2 s a T (ms_full m) rem R HnT HT Hlive HaR Hsep 65 0
                 (nodes_put n (a, rem) (ms_nodes m),
                  if rem then cached_put HO a n (ms_cached m) else ms_cached m)
-                (a, rem) n ltac:(lia) (al_0 H s)) as ([nd ca] & Eloop & G').
+                (a, rem) n ltac:(lia) (al_0 H s)) as ([nd ca] & Eloop & G' & Td').
     - rewrite p2_0, N.div_1_r. symmetry. apply gp_0.
     - exists (CLeaf a). split; [apply cl_0|reflexivity].
+    - cbn [fst]. rewrite nodes_get_put, N.eqb_refl. reflexivity.
     - exact G0.
+    - intros Hfull. cbn [fst]. rewrite <- (gp_0 T n).
+      apply (put_leaf_tidy H (Vlay HO s) _ (RTlay HO s) _ T HVl HV0 R _ n a rem (HTd Hfull)).
+      + intros r o h l. rewrite (Vent_split H HO _ _ _ EF), <- Vlay_Vent, Vent_single.
+        unfold Vpt. cbn [place_tree map In]. unfold pj. cbn [nrow noff nhash nleaf].
+        rewrite p2_0, N.div_1_r. split; (intros [A|A]; [left; exact A|right]).
+        * destruct A as [A|[]]. injection A as <- <- <- <-. auto.
+        * destruct A as (-> & -> & -> & ->). left. reflexivity.
+      + intros r o. rewrite (RTent_split H _ _ _ EF), <- RTlay_RTent, RTent_single.
+        rewrite p2_0, N.div_1_r. tauto.
+      + intros h l (x & Hx & Er & Eo & _). pose proof (layout_coords_valid H HO s x Hx) as Hv.
+        rewrite Er, Eo in Hv. change (2 ^ N.of_nat 0) with 1 in Hv. fold n in Hv. lia.
     - exists nd, ca. change (N.of_nat 0) with 0 in Eloop. fold n in Eloop.
       replace (if rem then cached_put HO a n (ms_cached m) else ms_cached m)
         with (if rem then cached_put HO (fst (a, rem0)) n (ms_cached m) else ms_cached m) in Eloop
@@ -2770,5 +3732,340 @@ Section Add.
       + apply live_snoc_nodup; assumption.
       + apply live_ok_snoc; assumption.
       + exact G'.
+      + exact Td'.
+  Qed.
+
+  (** G2: a list of additions that fit into the allocated rows *)
+  Definition Rnext (full : bool) (R : list H) (e : H * bool) : list H :=
+    if full || snd e then R ++ [fst e] else R.
+
+  Fixpoint adds_ok (s : slots H) (R : list H) (full : bool) (adds : list (H * bool)) : Prop :=
+    match adds with
+    | [] => True
+    | e :: rest =>
+        ~ In (Some (fst e)) s /\ Heqb (fst e) empty = false /\
+        leaf_sep (s ++ [Some (fst e)]) (Rnext full R e) /\
+        adds_ok (s ++ [Some (fst e)]) (Rnext full R e) full rest
+    end.
+
+  Theorem add_all_Inv adds : forall s R m,
+    Inv s R m -> N.of_nat (length s) + N.of_nat (length adds) <= 2 ^ ms_total m ->
+    adds_ok s R (ms_full m) adds ->
+    exists nd ca,
+      add_all HO (ms_full m) adds (ms_n m) (ms_total m) (ms_nodes m, ms_cached m)
+        = Some (ms_n m + N.of_nat (length adds), ms_total m, (nd, ca)) /\
+      Inv (s ++ map Some (map fst adds)) (fold_left (Rnext (ms_full m)) adds R)
+          (mkM nd ca (ms_n m + N.of_nat (length adds)) (ms_total m) (ms_full m)).
+  Proof.
+    induction adds as [|[a r] rest IH]; intros s R m I Hfit Hok.
+    - exists (ms_nodes m), (ms_cached m). cbn [add_all length map fold_left]. rewrite N.add_0_r, app_nil_r.
+      split; [reflexivity|]. destruct m; exact I.
+    - cbn [adds_ok fst snd] in Hok. destruct Hok as (Hfresh & Hne & Hsep & Hrest).
+      cbn [length] in Hfit.
+      destruct (addSingle_Inv s R m a r I ltac:(lia) Hfresh Hne Hsep) as (nd1 & ca1 & E1 & I1).
+      cbn [add_all]. rewrite E1.
+      assert (En1 : add64 (ms_n m) 1 = ms_n m + 1).
+      { apply add64_1. pose proof (inv_n _ _ _ I) as En. unfold num_leaves in En.
+        pose proof (inv_T63 _ _ _ I) as HT.
+        assert (2 ^ ms_total m <= 2 ^ 63) by (apply UtilsGeom.pow2_le; exact HT). lia. }
+      rewrite En1.
+      destruct (IH (s ++ [Some a]) (Rnext (ms_full m) R (a, r))
+                  (mkM nd1 ca1 (ms_n m + 1) (ms_total m) (ms_full m)) I1) as (nd & ca & E & I2).
+      + cbn [ms_total]. rewrite app_length. cbn [length]. lia.
+      + exact Hrest.
+      + cbn [ms_n ms_total ms_nodes ms_cached ms_full] in E, I2. exists nd, ca.
+        replace (ms_n m + N.of_nat (length ((a, r) :: rest)))
+          with (ms_n m + 1 + N.of_nat (length rest)) by (cbn [length]; lia).
+        split; [exact E|]. cbn [map fold_left]. rewrite <- app_assoc in I2. exact I2.
+  Qed.
+
+  (** a block without deletions *)
+  Theorem modify_adds_Inv adds s R m :
+    Inv s R m -> N.of_nat (length s) + N.of_nat (length adds) <= 2 ^ ms_total m ->
+    adds_ok s R (ms_full m) adds ->
+    exists m', mm_modify HO m adds [] [] [] = Some m' /\
+      Inv (s ++ map Some (map fst adds)) (fold_left (Rnext (ms_full m)) adds R) m' /\
+      ms_total m' = ms_total m /\ ms_full m' = ms_full m.
+  Proof.
+    intros I Hfit Hok. destruct (add_all_Inv adds s R m I Hfit Hok) as (nd & ca & E & I').
+    unfold mm_modify, MapMut.remove. cbn [forallb negb fold_left].
+    change (sortN []) with (@nil N).
+    replace (deTwin (if ms_total m =? TreeRows (ms_n m) then []
+                     else translatePositions [] (TreeRows (ms_n m)) (ms_total m)) (ms_total m))
+      with (@nil N) by (destruct (ms_total m =? TreeRows (ms_n m)); reflexivity).
+    cbv [fold_left].
+    match goal with
+    | |- context [add_all ?x1 ?x2 ?x3 ?x4 ?x5 ?x6] =>
+        replace (add_all x1 x2 x3 x4 x5 x6)
+          with (Some (ms_n m + N.of_nat (length adds), ms_total m, (nd, ca))) by (symmetry; exact E)
+    end.
+    eexists. split; [reflexivity|]. split; [exact I'|auto].
+  Qed.
+
+  (** G3: the forest outgrows the allocated rows *)
+  Lemma TreeRows_pow2_succ T : TreeRows (2 ^ T + 1) = T + 1.
+  Proof.
+    pose proof (proj2 (TreeRows_le_iff (2 ^ T + 1) (T + 1))) as H1.
+    pose proof (proj1 (TreeRows_le_iff (2 ^ T + 1) T)) as H2.
+    rewrite UtilsGeom.pow2_S in H1. pose proof (UtilsGeom.pow2_pos T).
+    assert (TreeRows (2 ^ T + 1) <= T + 1) by (apply H1; lia).
+    destruct (N.le_gt_cases (TreeRows (2 ^ T + 1)) T) as [L|G]; [specialize (H2 L); lia|lia].
+  Qed.
+
+  Theorem remap_Inv s R m :
+    Inv s R m -> ms_n m = 2 ^ ms_total m -> ms_total m <= 62 ->
+    exists nd ca,
+      remap (ms_n m) (ms_total m) (ms_nodes m, ms_cached m) = Some (ms_total m + 1, (nd, ca)) /\
+      Inv s R (mkM nd ca (ms_n m) (ms_total m + 1) (ms_full m)).
+  Proof.
+    intros I En HT. destruct I as [En0 En63 Hrows HT63 Hnd Hlive G HTd].
+    set (T := ms_total m) in *.
+    assert (HV : Vok (Vlay HO s) (RTlay HO s) T).
+    { apply Vlay_ok; [unfold num_leaves in En0; rewrite <- En0, En; lia|lia]. }
+    assert (HV1 : Vok (Vlay HO s) (RTlay HO s) (T + 1)).
+    { apply Vlay_ok; [|lia]. unfold num_leaves in En0. rewrite <- En0, En.
+      apply UtilsGeom.pow2_le. lia. }
+    destruct (remap_nodes H HO HOK T HT (Vlay HO s) (RTlay HO s) R HV (ms_nodes m) (ms_cached m) G)
+      as (nd' & Efold & Hnd' & K1 & K2).
+    exists nd', (map (fun e : H * N => (fst e, translatePos (snd e) T (T + 1))) (ms_cached m)).
+    assert (Hn1 : add64 (ms_n m) 1 = 2 ^ T + 1).
+    { rewrite En. apply add64_1. assert (2 ^ T <= 2 ^ 62) by (apply UtilsGeom.pow2_le; lia).
+      change (2 ^ 63) with (2 * 2 ^ 62). lia. }
+    split.
+    - unfold remap. rewrite Hn1, TreeRows_pow2_succ.
+      destruct (N.leb_spec (T + 1) T) as [C|_]; [lia|]. cbn [fst snd]. rewrite En.
+      change (fold_left _ (keys_sorted (ms_nodes m)) (Some (ms_nodes m)))
+        with (fold_left (rstep H T) (keys_sorted (ms_nodes m)) (Some (ms_nodes m))).
+      rewrite Efold. reflexivity.
+    - constructor; cbn [ms_n ms_total ms_nodes ms_cached]; try assumption.
+      + apply TreeRows_le_iff. rewrite En. apply UtilsGeom.pow2_le. lia.
+      + lia.
+      + exact (remap_GInv H T HT (Vlay HO s) (RTlay HO s) R HV (ms_nodes m) (ms_cached m) G nd' Hnd' K1 K2).
+      + intros Hfull. exact (remap_tidy H T (Vlay HO s) (RTlay HO s) R HV (ms_nodes m) nd' K1 (HTd Hfull)).
+  Qed.
+
+  Lemma remap_noop n T (st : maps H) : n + 1 <= 2 ^ T -> n + 1 <= 2 ^ 63 -> remap n T st = Some (T, st).
+  Proof.
+    intros HnT Hn63. unfold remap. rewrite (add64_1 n Hn63).
+    destruct (N.leb_spec (TreeRows (n + 1)) T) as [_|C]; [reflexivity|].
+    apply TreeRows_le_iff in HnT. lia.
+  Qed.
+
+  (** one addition, with or without [remap] *)
+  Theorem addSingle_gen s R m a (rem0 : bool) :
+    Inv s R m -> N.of_nat (length s) + 1 <= 2 ^ 63 ->
+    ~ In (Some a) s -> Heqb a empty = false ->
+    leaf_sep (s ++ [Some a]) (if ms_full m || rem0 then R ++ [a] else R) ->
+    exists T' nd ca,
+      addSingle HO (ms_n m) (ms_total m) (ms_full m) (a, rem0) (ms_nodes m, ms_cached m)
+        = Some (T', (nd, ca)) /\
+      T' = (if N.of_nat (length s) + 1 <=? 2 ^ ms_total m then ms_total m else ms_total m + 1) /\
+      Inv (s ++ [Some a]) (if ms_full m || rem0 then R ++ [a] else R)
+          (mkM nd ca (ms_n m + 1) T' (ms_full m)).
+  Proof.
+    intros I Hn63 Hfresh Hne Hsep.
+    destruct (N.leb_spec (N.of_nat (length s) + 1) (2 ^ ms_total m)) as [Hfit|Hbig].
+    - destruct (addSingle_Inv s R m a rem0 I Hfit Hfresh Hne Hsep) as (nd & ca & E & I').
+      exists (ms_total m), nd, ca. auto.
+    - pose proof (inv_n _ _ _ I) as En. unfold num_leaves in En.
+      pose proof (proj1 (TreeRows_le_iff _ _) (inv_rows _ _ _ I)) as HnT.
+      assert (En2 : ms_n m = 2 ^ ms_total m) by lia.
+      assert (HT62 : ms_total m <= 62).
+      { destruct (N.le_gt_cases (ms_total m) 62) as [L|G]; [exact L|exfalso].
+        assert (2 ^ 63 <= 2 ^ ms_total m) by (apply UtilsGeom.pow2_le; lia). lia. }
+      destruct (remap_Inv s R m I En2 HT62) as (nd1 & ca1 & Er & I1).
+      set (m1 := mkM nd1 ca1 (ms_n m) (ms_total m + 1) (ms_full m)) in *.
+      assert (Hfit1 : N.of_nat (length s) + 1 <= 2 ^ ms_total m1).
+      { cbn [ms_total m1]. rewrite UtilsGeom.pow2_S. pose proof (UtilsGeom.pow2_pos (ms_total m)). lia. }
+      destruct (addSingle_Inv s R m1 a rem0 I1 Hfit1 Hfresh Hne Hsep) as (nd & ca & E & I').
+      cbn [ms_n ms_total ms_full ms_nodes ms_cached m1] in E, I'.
+      exists (ms_total m + 1), nd, ca. split; [|split; [reflexivity|exact I']].
+      assert (F1 : ms_n m + 1 <= 2 ^ (ms_total m + 1)).
+      { rewrite UtilsGeom.pow2_S. pose proof (UtilsGeom.pow2_pos (ms_total m)). lia. }
+      assert (F2 : ms_n m + 1 <= 2 ^ 63) by lia.
+      unfold addSingle in *. rewrite Er.
+      match type of E with
+      | context [remap ?x1 ?x2 ?x3] =>
+          replace (remap x1 x2 x3) with (Some (x2, x3)) in E
+            by (symmetry; exact (remap_noop _ _ _ F1 F2))
+      end.
+      exact E.
+  Qed.
+
+  (** any list of additions *)
+  Theorem add_all_gen adds : forall s R m,
+    Inv s R m -> N.of_nat (length s) + N.of_nat (length adds) <= 2 ^ 63 ->
+    adds_ok s R (ms_full m) adds ->
+    exists T' nd ca,
+      add_all HO (ms_full m) adds (ms_n m) (ms_total m) (ms_nodes m, ms_cached m)
+        = Some (ms_n m + N.of_nat (length adds), T', (nd, ca)) /\
+      ms_total m <= T' /\
+      Inv (s ++ map Some (map fst adds)) (fold_left (Rnext (ms_full m)) adds R)
+          (mkM nd ca (ms_n m + N.of_nat (length adds)) T' (ms_full m)).
+  Proof.
+    induction adds as [|[a r] rest IH]; intros s R m I Hfit Hok.
+    - exists (ms_total m), (ms_nodes m), (ms_cached m). cbn [add_all length map fold_left].
+      rewrite N.add_0_r, app_nil_r. split; [reflexivity|]. split; [lia|]. destruct m; exact I.
+    - cbn [adds_ok fst snd] in Hok. destruct Hok as (Hfresh & Hne & Hsep & Hrest).
+      cbn [length] in Hfit.
+      destruct (addSingle_gen s R m a r I ltac:(lia) Hfresh Hne Hsep) as (T1 & nd1 & ca1 & E1 & ET1 & I1).
+      cbn [add_all]. rewrite E1.
+      assert (En1 : add64 (ms_n m) 1 = ms_n m + 1).
+      { apply add64_1. pose proof (inv_n _ _ _ I) as En. unfold num_leaves in En. lia. }
+      rewrite En1.
+      destruct (IH (s ++ [Some a]) (Rnext (ms_full m) R (a, r))
+                  (mkM nd1 ca1 (ms_n m + 1) T1 (ms_full m)) I1) as (T' & nd & ca & E & HT' & I2).
+      + rewrite app_length. cbn [length]. lia.
+      + exact Hrest.
+      + cbn [ms_n ms_total ms_nodes ms_cached ms_full] in E, I2, HT'. exists T', nd, ca.
+        replace (ms_n m + N.of_nat (length ((a, r) :: rest)))
+          with (ms_n m + 1 + N.of_nat (length rest)) by (cbn [length]; lia).
+        split; [exact E|]. split.
+        * rewrite ET1 in HT'. destruct (N.of_nat (length s) + 1 <=? 2 ^ ms_total m); lia.
+        * cbn [map fold_left]. rewrite <- app_assoc in I2. exact I2.
+  Qed.
+
+  (** G1-G3 for [Modify]: a block without deletions *)
+  Theorem modify_adds_gen adds s R m :
+    Inv s R m -> N.of_nat (length s) + N.of_nat (length adds) <= 2 ^ 63 ->
+    adds_ok s R (ms_full m) adds ->
+    exists m', mm_modify HO m adds [] [] [] = Some m' /\
+      Inv (s ++ map Some (map fst adds)) (fold_left (Rnext (ms_full m)) adds R) m' /\
+      ms_total m <= ms_total m' /\ ms_full m' = ms_full m.
+  Proof.
+    intros I Hfit Hok. destruct (add_all_gen adds s R m I Hfit Hok) as (T' & nd & ca & E & HT' & I').
+    unfold mm_modify, MapMut.remove. cbn [forallb negb fold_left].
+    change (sortN []) with (@nil N).
+    replace (deTwin (if ms_total m =? TreeRows (ms_n m) then []
+                     else translatePositions [] (TreeRows (ms_n m)) (ms_total m)) (ms_total m))
+      with (@nil N) by (destruct (ms_total m =? TreeRows (ms_n m)); reflexivity).
+    cbv [fold_left].
+    match goal with
+    | |- context [add_all ?x1 ?x2 ?x3 ?x4 ?x5 ?x6] =>
+        replace (add_all x1 x2 x3 x4 x5 x6)
+          with (Some (ms_n m + N.of_nat (length adds), T', (nd, ca))) by (symmetry; exact E)
+    end.
+    eexists. split; [reflexivity|]. split; [exact I'|auto].
   Qed.
 End Add.
+
+(** * Part 6: a decision procedure for the side conditions, and an example *)
+Section Check.
+  Variable H : Type.
+  Variable HO : ops H.
+  Hypothesis HOK : ops_ok HO.
+
+  Definition leaf_sepb (s : slots H) (R : list H) : bool :=
+    forallb (fun x => negb (memH HO (nhash x) R) || nleaf x) (layout HO s).
+
+  Lemma leaf_sepb_sound s R : leaf_sepb s R = true -> leaf_sep H HO s R.
+  Proof.
+    unfold leaf_sepb. rewrite forallb_forall. intros Hall x Hx Hin. specialize (Hall x Hx).
+    apply (memH_In H HO HOK) in Hin. rewrite Hin in Hall. exact Hall.
+  Qed.
+
+  Definition liveb (s : slots H) (a : H) : bool :=
+    existsb (fun o => match o with Some h => op_eqb HO h a | None => false end) s.
+
+  Lemma liveb_false s a : liveb s a = false -> ~ In (Some a) s.
+  Proof.
+    intros E Hin. assert (liveb s a = true); [|congruence].
+    apply existsb_exists. exists (Some a). split; [exact Hin|apply HOK; reflexivity].
+  Qed.
+
+  Fixpoint adds_okb (s : slots H) (R : list H) (full : bool) (adds : list (H * bool)) : bool :=
+    match adds with
+    | [] => true
+    | e :: rest =>
+        negb (liveb s (fst e)) && negb (op_eqb HO (fst e) (op_empty HO)) &&
+        leaf_sepb (s ++ [Some (fst e)]) (Rnext H full R e) &&
+        adds_okb (s ++ [Some (fst e)]) (Rnext H full R e) full rest
+    end.
+
+  Lemma adds_okb_sound adds : forall s R full, adds_okb s R full adds = true -> adds_ok H HO s R full adds.
+  Proof.
+    induction adds as [|e rest IH]; intros s R full E; [exact I|]. cbn [adds_okb adds_ok] in *.
+    apply Bool.andb_true_iff in E as [E E4]. apply Bool.andb_true_iff in E as [E E3].
+    apply Bool.andb_true_iff in E as [E1 E2].
+    split; [apply liveb_false, Bool.negb_true_iff, E1|].
+    split; [apply Bool.negb_true_iff, E2|]. split; [apply leaf_sepb_sound, E3|apply IH, E4].
+  Qed.
+End Check.
+
+From Utreexo Require Import Spec.Term.
+
+(** nine additions to the empty partial forest allocated with 0 rows (so [remap] runs four
+    times), three of them remembered: the theorem applies, and the result is the one computed *)
+Definition mma_adds : list (term * bool) :=
+  [(Atom 1, true); (Atom 2, false); (Atom 3, false); (Atom 4, true); (Atom 5, false);
+   (Atom 6, false); (Atom 7, false); (Atom 8, false); (Atom 9, true)].
+
+Example mma_ex :
+  exists m', mm_modify term_ops (mkM [] [] 0 0 false) mma_adds [] [] [] = Some m' /\
+    consistent term_ops (map Some (map fst mma_adds)) [Atom 1; Atom 4; Atom 9] m' /\
+    (forall p, In p (stored_min m') ->
+       exists al, allowed_pos term_ops (map Some (map fst mma_adds)) [Atom 1; Atom 4; Atom 9] = Some al /\
+                  In p al) /\
+    ms_full m' = false.
+Proof.
+  destruct (modify_adds_gen term term_ops term_ops_ok term_node_nonzero mma_adds [] []
+              (mkM [] [] 0 0 false) (Inv_empty term term_ops 0 false ltac:(discriminate)))
+    as (m' & E & I & _ & F).
+  - cbn. discriminate.
+  - apply (adds_okb_sound term term_ops term_ops_ok). vm_compute. reflexivity.
+  - exists m'. split; [exact E|]. split; [exact (Inv_consistent term term_ops term_ops_ok _ _ _ I)|].
+    split; [|exact F].
+    exact (Inv_stores_allowed term term_ops term_ops_ok _ _ _ I F).
+Qed.
+
+
+Example mma_ex_run :
+  mm_modify term_ops (mkM [] [] 0 0 false) mma_adds [] [] [] =
+  Some (mkM [(8, (Atom 9, true));
+             (28, (Node (Node (Node (Atom 1) (Atom 2)) (Node (Atom 3) (Atom 4)))
+                        (Node (Node (Atom 5) (Atom 6)) (Node (Atom 7) (Atom 8))), false));
+             (25, (Node (Node (Atom 5) (Atom 6)) (Node (Atom 7) (Atom 8)), false));
+             (17, (Node (Atom 3) (Atom 4), false)); (16, (Node (Atom 1) (Atom 2), false));
+             (3, (Atom 4, true)); (2, (Atom 3, false)); (1, (Atom 2, false)); (0, (Atom 1, true))]
+            [(Atom 9, 8); (Atom 4, 3); (Atom 1, 0)] 9 4 false).
+Proof. vm_compute. reflexivity. Qed.
+
+(** [leaf_sep] is necessary: a full forest in which the remembered leaf
+    [X = Node (Atom 12) (Atom 13)] has the hash of an inner node.  When the inner node moves over
+    the empty root, [cached_move] (keyed by the hash) re-binds the cached position of [X]: the
+    map is consistent before the addition and not after it *)
+Definition mmc_X : term := Node (Atom 12) (Atom 13).
+Definition mmc_s : slots term :=
+  map Some ([mmc_X] ++ map Atom [1; 2; 3; 4; 5; 6; 7]) ++ [None; None; None; None] ++
+  map Some (map Atom [12; 13; 14]).
+Definition mmc_R : list term := [mmc_X] ++ map Atom [1; 2; 3; 4; 5; 6; 7; 12; 13; 14].
+Definition mmc_m : mstate term :=
+  match mm_modify term_ops (mkM [] [] 0 4 true)
+          (map (fun h => (h, false)) ([mmc_X] ++ map Atom [1; 2; 3; 4; 5; 6; 7; 8; 9; 10; 11; 12; 13; 14]))
+          [] [] [] with
+  | Some m1 =>
+      match mm_modify term_ops m1 [] (map Atom [8; 9; 10; 11])
+              (GetLeafHashPositions term_ops m1 (map Atom [8; 9; 10; 11])) [] with
+      | Some m2 => m2
+      | None => m1
+      end
+  | None => mkM [] [] 0 4 true
+  end.
+
+Example mmc_collision :
+  consistentb term_ops mmc_s mmc_R mmc_m = true /\
+  leaf_sepb term term_ops (mmc_s ++ [Some (Atom 15)]) (mmc_R ++ [Atom 15]) = false /\
+  match mm_modify term_ops mmc_m [(Atom 15, false)] [] [] [] with
+  | Some m' =>
+      consistentb term_ops (mmc_s ++ [Some (Atom 15)]) (mmc_R ++ [Atom 15]) m' = false /\
+      GetLeafPosition term_ops m' mmc_X = Some 26 /\
+      leaf_pos term_ops 4 (layout term_ops (mmc_s ++ [Some (Atom 15)])) mmc_X = Some 0
+  | None => False
+  end.
+Proof. vm_compute. auto. Qed.
+
+Print Assumptions addSingle_Inv.
+Print Assumptions modify_adds_Inv.
+Print Assumptions modify_adds_gen.
+Print Assumptions Inv_consistent.
+Print Assumptions Inv_stores_allowed.
